@@ -2,13 +2,14 @@
 from __future__ import annotations
 
 import ast
+import re
 
-from ..cfg import CFG
 from ..loops import dotted
 from ..nf import NF, Scope, Poly, parse_expr
 from ..repo import Repo, loc, short, AnalysisError, positional_params, param_names, bind_call
 from ..resolve import Resolver
-from ..sem import same_ingredients, guard_literals, spec as sem_spec, stmt_calls, on_every_path_once, arg_of
+from ..sem import guard_literals, spec as sem_spec, stmt_calls, on_every_path_once, recv_canon, field_gathers, split_conditional_assignments, _negate, _flatten_and
+from ..sympath import enumerate_paths, PathEval
 
 EXPLANATION = (
     "Ownership analysis of the `last sampled batch` field: every write of an attribute is attributed to the class of its receiver "
@@ -34,6 +35,94 @@ RULES = {
 }
 
 RB = "rl_blox.blox.replay_buffer."
+_TEMP = re.compile(r"__i\d+\b")
+_IDENT = re.compile(r"[A-Za-z_][A-Za-z_0-9]*")
+_SELF_ATTR = re.compile(r"self\.([A-Za-z_]\w*)")
+
+
+def _unread(*vals) -> bool:
+    """A value the engine did not read completely: a merge of definitions (φ), an opaque expression (⟦..⟧), a temporary of the helper
+    expander that was left unresolved.  A comparison made on such a value is no evidence."""
+    for v in vals:
+        if v is None:
+            continue
+        t = v if isinstance(v, str) else v.canon()
+        if "φ(" in t or "⟦" in t or _TEMP.search(t):
+            return True
+    return False
+
+
+def _tok(v) -> set:
+    return set(_IDENT.findall(v if isinstance(v, str) else v.canon()))
+
+
+def _ops(nf, p: Poly, depth: int = 0) -> set:
+    """The constructs a value is made of: function names, attribute names, leaf names and the index texts of slices.  Constant element
+    indices are not recorded (another constant is a wrong constant, not another construct); coefficients and exponents are not either
+    (the same constructs combined differently)."""
+    out = set()
+    if depth > 12:
+        return {"<deep>"}
+    if p.elems is not None:
+        for e in p.elems:
+            out |= _ops(nf, e, depth + 1)
+        return out
+    for a in p.atoms():
+        m_ = nf.meta.get(a)
+        if m_ is None or not m_.get("fn"):
+            out.add(a)
+            continue
+        fn_ = m_["fn"].split(".")[-1]
+        args = list(m_.get("args", []))
+        if fn_ == "subscript" and args:
+            ix_ = a[len(args[0].canon()):]
+            out.add("proj" if re.fullmatch(r"\[-?\d+\]", ix_) else "subscript" + ix_)
+        elif fn_ == "attr":
+            out.add("attr:" + a.rsplit(".", 1)[-1])
+        else:
+            out.add(fn_)
+        for x in args + list(m_.get("kws", {}).values()):
+            if isinstance(x, Poly):
+                out |= _ops(nf, x, depth + 1)
+    return out
+
+
+def _evidence(nf, got: Poly, wants, extra=()) -> bool:
+    """A value that differs from the documented one is evidence of a different behaviour only when it was read completely and is built
+    from the documented ingredients and constructs (only combined differently, or with another constant); anything else is a form the
+    rule does not read."""
+    wants = list(wants) if isinstance(wants, (list, tuple, set)) else [wants]
+    if got is None or _unread(got):
+        return False
+    ops = set(extra) | {"attr:" + x for x in extra}
+    toks = set(extra)
+    for w in wants:      # the documented ingredients, in every accepted spelling
+        ops |= _ops(nf, w)
+        toks |= _tok(w)
+    return _tok(got) <= toks and _ops(nf, got) <= ops
+
+
+def _decide(ck, nf, rule, site, key, got: Poly, wants, shown: str, why: str, where, extra=()):
+    """Equal to (one of) the documented value(s) -> holds.  Different -> a violation only with evidence (see _evidence)."""
+    wants = list(wants) if isinstance(wants, (list, tuple, set)) else [wants]
+    ok = any(got == w for w in wants)
+    if not ok and not _evidence(nf, got, wants, extra):
+        raise AnalysisError(f"{site}: {key} is `{got.canon()[:110]}` (unrecognised form)")
+    ck.ob(rule, site, key, ok, shown, "" if ok else why, where)
+    return ok
+
+
+def _group(ck, fn, *a, **kw):
+    """One independent rule group: an unrecognised form inside it leaves the group undecided, the other groups still run (a definite
+    violation found elsewhere is still reported)."""
+    def run_():
+        try:
+            return fn(*a, **kw)
+        except AnalysisError:
+            raise
+        except (IndexError, KeyError, ValueError, RuntimeError, AttributeError, TypeError) as e:
+            raise AnalysisError(f"{getattr(fn, '__name__', 'rule')}: {type(e).__name__}: {e} (unrecognised form)")
+    return ck.guard(run_)
 
 
 def _top(txt: str) -> str:
@@ -68,12 +157,96 @@ def sem_split_args(inner: str) -> list:
 
 
 def _m(repo, cq, name):
-    m = repo.method(cq, name, inherited=False)
+    """The method the class uses (own or inherited), with the module of the class that defines it."""
+    m = repo.method(cq, name)
     if m is None:
         raise AnalysisError(f"{cq}.{name} not found (anchor vanished)")
     fn = m[1]
-    fn._module = repo.cls(cq)._module
+    fn._module = repo.cls(m[0])._module
     return fn
+
+
+def _targets(st) -> list:
+    """Store targets of an assignment statement, tuple / list / starred targets flattened."""
+    if isinstance(st, ast.Assign):
+        ts = list(st.targets)
+    elif isinstance(st, ast.AugAssign) or (isinstance(st, ast.AnnAssign) and st.value is not None):
+        ts = [st.target]
+    else:
+        ts = []
+    out = []
+
+    def flat(t):
+        if isinstance(t, (ast.Tuple, ast.List)):
+            for e in t.elts:
+                flat(e)
+        elif isinstance(t, ast.Starred):
+            flat(t.value)
+        else:
+            out.append(t)
+    for t in ts:
+        flat(t)
+    return out
+
+
+def _bind(fn, call, site, skip_self=True) -> dict:
+    """Arguments of a call bound by the callee's signature (positional and keyword spellings are the same call)."""
+    if any(isinstance(a, ast.Starred) for a in call.args) or any(k.arg is None for k in call.keywords):
+        raise AnalysisError(f"{site}: `{short(call, 80)}` passes arguments through * / ** (unrecognised form)")
+    return bind_call(fn, call, skip_self=skip_self)
+
+
+_WRAPPERS = {"int", "float", "asarray", "array", "asanyarray", "copy", "int64", "int32", "intp", "float32", "float64", "device_get"}
+
+
+def _origin(cfg, e, at):
+    """Follow single-definition local copies and value-transparent wrappers back to the expression that produces the value:
+    (expression, CFG node at which it is evaluated)."""
+    for _ in range(12):
+        if isinstance(e, ast.Call) and len(e.args) == 1 and not e.keywords and ((isinstance(e.func, ast.Name) and e.func.id in _WRAPPERS) or (isinstance(e.func, ast.Attribute) and e.func.attr in _WRAPPERS and isinstance(e.func.value, ast.Name) and not cfg.defs_of(at, e.func.value.id))):
+            e = e.args[0]
+            continue
+        if isinstance(e, ast.Name):
+            ds = cfg.defs_of(at, e.id)
+            if len(ds) == 1 and ds[0].kind == "assign" and ds[0].value is not None:
+                e, at = ds[0].value, ds[0].node
+                continue
+        break
+    return e, at
+
+
+def _need_no_own_calls(repo, cq, fn, site):
+    """State-changing rules evaluate the statements of one method: a call of another method of the object that the helper expander
+    left in place hides assignments, so nothing is decided."""
+    for c in ast.walk(fn):
+        if isinstance(c, ast.Call) and isinstance(c.func, ast.Attribute) and isinstance(c.func.value, ast.Name) and c.func.value.id == "self":
+            try:
+                m = repo.method(cq, c.func.attr)
+            except AnalysisError:
+                m = None
+            if m is not None:
+                raise AnalysisError(f"{site}: calls its own method `{c.func.attr}`, whose effects are not read (unrecognised form)")
+
+
+def _need_no_local_mutation(cfg, fn, site):
+    """Value rules read locals through their assignments: an element store into a local array, an `out=` target or an in-place method
+    changes a value without an assignment, so nothing is decided."""
+    for n in cfg.nodes:
+        for t in (_targets(n.ast) if n.kind == "stmt" else []):
+            b = t
+            while isinstance(b, ast.Subscript) or (isinstance(b, ast.Attribute) and b is not t):
+                b = b.value
+            if isinstance(t, ast.Subscript) and isinstance(b, ast.Name) and b.id != "self":
+                raise AnalysisError(f"{site}: `{short(n.ast, 60)}` stores into a local array (unrecognised form)")
+    for c in ast.walk(fn):
+        if isinstance(c, ast.Call) and (any(k.arg == "out" for k in c.keywords) or (isinstance(c.func, ast.Attribute) and c.func.attr in _INPLACE_METHODS | _INPLACE_FUNCS)):
+            raise AnalysisError(f"{site}: `{short(c, 60)}` updates an array in place (unrecognised form)")
+
+
+def _roles(fn) -> list:
+    """Parameter names in signature order, keyword-only ones included (roles are positions of the recorded signature)."""
+    a = fn.args
+    return [x.arg for x in a.posonlyargs + a.args + a.kwonlyargs]
 
 
 def _attr_types(repo, cq):
@@ -85,70 +258,190 @@ def _attr_types(repo, cq):
             continue
         mi = repo.cls(c)._module
         for n in ast.walk(m[1]):
-            if isinstance(n, ast.Assign) and isinstance(n.targets[0], ast.Attribute) and dotted(n.targets[0].value) == "self" and isinstance(n.value, ast.Call) and isinstance(n.value.func, ast.Name):
-                r = repo.resolve_name(mi, n.value.func.id)
+            if isinstance(n, (ast.Assign, ast.AnnAssign)) and isinstance(n.value, ast.Call) and isinstance(n.value.func, (ast.Name, ast.Attribute)):
+                r = repo.resolve_expr(mi, n.value.func)
                 if r and r.startswith("rl_blox."):
-                    out[n.targets[0].attr] = r
+                    for t in _targets(n):
+                        if isinstance(t, ast.Attribute) and dotted(t.value) == "self":
+                            out[t.attr] = r
     return out
 
 
-def r1_field_agreement(ck, repo):
-    PB = RB + "PriorityBuffer"
+def _recv_class(repo, nf, cfg, mi, cq, types, at, e):
+    """Class of the object an attribute is written on / a method is called on: `self` -> the enclosing class, `self.x` (also through a
+    local alias) -> the class assigned to x in __init__; None when the receiver is not one of these."""
+    sc = Scope(cfg, mi, {}, cq)
+    sc.inline_self_attrs = False
+    r = nf.poly(e, sc, at).canon()
+    if r == "self":
+        return cq
+    m = _SELF_ATTR.fullmatch(r)
+    return types.get(m.group(1)) if m else None
+
+
+def _len_of_self(repo, nf, cq, got: Poly) -> Poly:
+    """`len(self)` is what the class's __len__ returns."""
+    if got.canon() != "len(self)":
+        return got
+    m = repo.method(cq, "__len__")
+    if m is None:
+        return got
+    fn = m[1]
+    fn._module = repo.cls(m[0])._module
+    cfg = nf.cfg_of(fn)
+    rets = [n for n in cfg.nodes if n.kind == "stmt" and isinstance(n.ast, ast.Return) and n.ast.value is not None]
+    if len(rets) != 1:
+        return got
+    return nf.poly(rets[0].ast.value, Scope(cfg, fn._module, {}, cq), rets[0].id)
+
+
+def sampled_field(repo, nf, PB):
+    """The attribute update_priority indexes the stored priorities with (the `last sampled batch` field)."""
     up = _m(repo, PB, "update_priority")
-    reads = sorted({n.attr for n in ast.walk(up) if isinstance(n, ast.Attribute) and isinstance(n.ctx, ast.Load) and dotted(n.value) == "self" and "ind" in n.attr})
-    ck.need(len(reads) == 1, f"{PB}.update_priority: cannot identify the last-sampled-indices field (reads {reads})")
-    field = reads[0]
-    n_writes = 0
-    mi0 = repo.module("rl_blox.blox.replay_buffer")
-    for name, node, mi0 in repo.module_members("rl_blox.blox.replay_buffer"):
-        if not isinstance(node, ast.ClassDef):
+    cfg = nf.cfg_of(up)
+    sc = Scope(cfg, up._module, {}, PB)
+    sc.inline_self_attrs = False
+    cands = set()
+    for n in cfg.nodes:
+        if n.kind != "stmt":
             continue
-        cq = f"rl_blox.blox.replay_buffer.{name}"
+        for t in _targets(n.ast):
+            if isinstance(t, ast.Subscript) and nf.poly(t.value, sc, n.id).canon() == "self.priority":
+                m = _SELF_ATTR.fullmatch(nf._slice(t.slice, sc, n.id, 0)[0])
+                if m:
+                    cands.add(m.group(1))
+    if not cands:
+        cands = {n.attr for n in ast.walk(up) if isinstance(n, ast.Attribute) and isinstance(n.ctx, ast.Load) and dotted(n.value) == "self" and "ind" in n.attr}
+    if len(cands) != 1:
+        raise AnalysisError(f"{PB}.update_priority: cannot identify the last-sampled-indices field (candidates {sorted(cands)})")
+    return cands.pop()
+
+
+def r1_field_agreement(ck, repo, nf0, field):
+    PB = RB + "PriorityBuffer"
+    MOD = "rl_blox.blox.replay_buffer"
+    classes = [(f"{MOD}.{name}", node, mi0) for name, node, mi0 in repo.module_members(MOD) if isinstance(node, ast.ClassDef)]
+    pb_mro = repo.mro(PB)
+
+    def fam(c):
+        """c is PriorityBuffer or derives from it"""
+        try:
+            return c is not None and PB in repo.mro(c)
+        except AnalysisError:
+            return False
+    _deleg = {}
+
+    def delegating(c):
+        """update_priority of class c ends in the update_priority of a PriorityBuffer it holds"""
+        if c not in _deleg:
+            _deleg[c] = False
+            try:
+                m = repo.method(c, "update_priority")
+            except AnalysisError:
+                m = None
+            if m is not None and not fam(c):
+                f_ = m[1]
+                mi_ = repo.cls(m[0])._module
+                cfg_ = nf0.cfg_of(f_)
+                ty_ = _attr_types(repo, c)
+                _deleg[c] = any(fam(_recv_class(repo, nf0, cfg_, mi_, c, ty_, n_.id, c_.func.value)) for n_, c_ in stmt_calls(cfg_, lambda c_: isinstance(c_.func, ast.Attribute) and c_.func.attr == "update_priority"))
+        return _deleg[c]
+    writes = []  # (class, module, method name, stmt, receiver class | None)
+    for cq, node, mi0 in classes:
         types = _attr_types(repo, cq)
         for meth in node.body:
             if not isinstance(meth, ast.FunctionDef):
                 continue
-            for n in ast.walk(meth):
-                if isinstance(n, (ast.Assign, ast.AugAssign)):
-                    t = n.targets[0] if isinstance(n, ast.Assign) else n.target
+            cfg = nf0.cfg_of(meth)
+            for n in cfg.nodes:
+                if n.kind != "stmt":
+                    continue
+                for t in _targets(n.ast):
                     if isinstance(t, ast.Attribute) and t.attr == field:
-                        recv = dotted(t.value)
-                        if recv == "self":
-                            rc = cq
-                        elif recv.startswith("self.") and recv.count(".") == 1:
-                            rc = types.get(recv.split(".")[1], "?")
-                        else:
-                            rc = "?"
-                        n_writes += 1
-                        if meth.name == "__init__":
-                            continue
-                        ok = rc == PB
-                        ck.ob("R1-field-agreement", f"{cq}.{meth.name}", f"writes:{field}", ok, f"`{short(n, 70)}` (receiver class {rc.rsplit('.', 1)[-1]})",
-                              "" if ok else f"`{field}` is stored on a {rc.rsplit('.', 1)[-1]} but PriorityBuffer.update_priority reads its own `{field}`: the priorities of this batch are never updated (or an empty / stale index set is written)", loc(mi0, n))
-    ck.floor("sampled-indices-writes", n_writes, 2)
-    # every buffer class that delegates update_priority to self.priority must sample through a method that writes the field on the PriorityBuffer
-    nf0 = NF(repo, inline_depth=1, inline_calls=False)
-    for cq in (RB + "LAP", RB + "PrioritizedReplayBuffer", RB + "SubtrajectoryReplayBufferPER"):
-        for meth, want_arg in (("update_priority", None), ("reset_max_priority", "self.current_len")):
-            m = repo.method(cq, meth)
-            ck.need(m is not None, f"{cq}.{meth} not found")
-            fn = m[1]
-            fmi = repo.cls(m[0])._module
-            fn._module = fmi
-            cfg = nf0.cfg_of(fn)
-            calls = stmt_calls(cfg, lambda c: isinstance(c.func, ast.Attribute) and c.func.attr == meth and dotted(c.func.value) == "self.priority")
-            once = on_every_path_once(cfg, [n.id for n, _ in calls])
-            params = [p_ for p_ in positional_params(fn) if p_ != "self"]
-            args_ok = True
-            for n, c in calls:
-                a = c.args[0] if c.args else (c.keywords[0].value if c.keywords else None)
-                got = nf0.poly(a, Scope(cfg, fmi, {}, cq), n.id).canon() if a is not None else None
-                args_ok &= (got == (want_arg if want_arg else (params[0] if params else None)))
-            ok = once and args_ok
-            key = "delegates" if meth == "update_priority" else "delegates-with-length"
-            ck.ob("R4-bookkeeping", f"{cq}.{meth}", key, ok, "; ".join(short(c, 60) for _, c in calls) or "no call",
-                  "" if ok else ("buffers must forward the new priorities, unchanged and exactly once, to their PriorityBuffer" if meth == "update_priority" else "the reset must consider exactly the filled region (current_len)"), loc(fmi, fn))
-    return field
+                        writes.append((cq, mi0, meth.name, n.ast, _recv_class(repo, nf0, cfg, mi0, cq, types, n.id, t.value)))
+    ck.floor("sampled-indices-writes", len(writes), 2)
+    pb_writes_outside = [w for w in writes if fam(w[4]) and not fam(w[0]) and w[2] != "__init__"]
+    for cq, mi0, mname, st, rc in writes:
+        if mname == "__init__":
+            continue
+        site = f"{cq}.{mname}"
+        mine = [w for w in writes if w[0] == cq and w[2] == mname]
+        has_good = any(fam(w[4]) for w in mine)
+        shown = f"`{short(st, 70)}` (receiver class {rc.rsplit('.', 1)[-1] if rc else '?'})"
+        if fam(rc):
+            ck.ob("R1-field-agreement", site, f"writes:{field}", True, shown, "", loc(mi0, st))
+        elif rc is None:
+            if not has_good and (fam(cq) or delegating(cq)):
+                raise AnalysisError(f"{site}: receiver of `{short(st, 70)}` not resolved to a class (unrecognised form)")
+        elif rc in pb_mro:
+            # written in a base class / mixin of PriorityBuffer: the object is a PriorityBuffer unless another class shares that base
+            if any(rc in repo.mro(c) and not fam(c) and c != rc and c not in pb_mro for c, _, _ in classes):
+                raise AnalysisError(f"{site}: `{field}` is written in {rc}, a base shared by PriorityBuffer and other classes (unrecognised form)")
+            ck.ob("R1-field-agreement", site, f"writes:{field}", True, shown, "", loc(mi0, st))
+        elif has_good:
+            ck.ob("R1-field-agreement", site, f"writes:{field}", True, shown + " - also recorded on the PriorityBuffer in the same method", "", loc(mi0, st))
+        elif delegating(rc):
+            # the sampler of a buffer whose update_priority ends in PriorityBuffer.update_priority records the batch on the buffer only
+            if pb_writes_outside:
+                raise AnalysisError(f"{site}: `{field}` is stored on a {rc.rsplit('.', 1)[-1]} here and on the PriorityBuffer by {pb_writes_outside[0][0]}.{pb_writes_outside[0][2]} (unrecognised form)")
+            ck.ob("R1-field-agreement", site, f"writes:{field}", False, shown,
+                  f"`{field}` is stored on a {rc.rsplit('.', 1)[-1]} but PriorityBuffer.update_priority reads its own `{field}`: the priorities of this batch are never updated (or an empty / stale index set is written)", loc(mi0, st))
+        # any other class keeps an attribute of its own with this name: not the field update_priority reads
+
+
+def r4_delegate(ck, repo, nf0, cq, meth, is_len):
+    """A buffer class forwards update_priority / reset_max_priority to the PriorityBuffer it holds: the right value, exactly once."""
+    PB = RB + "PriorityBuffer"
+
+    def fam(c):
+        try:
+            return c is not None and PB in repo.mro(c)
+        except AnalysisError:
+            return False
+    m = repo.method(cq, meth)
+    ck.need(m is not None, f"{cq}.{meth} not found")
+    fn = m[1]
+    fmi = repo.cls(m[0])._module
+    fn._module = fmi
+    site = f"{cq}.{meth}"
+    cfg = nf0.cfg_of(fn)
+    types = _attr_types(repo, cq)
+    calls = []
+    for n, c in stmt_calls(cfg, lambda c: isinstance(c.func, ast.Attribute) and c.func.attr == meth):
+        rc = _recv_class(repo, nf0, cfg, fmi, cq, types, n.id, c.func.value)
+        if rc is None:
+            raise AnalysisError(f"{site}: receiver of `{short(c, 60)}` not resolved to a class (unrecognised form)")
+        if fam(rc):
+            calls.append((n, c))
+    key = "delegates-with-length" if is_len else "delegates"
+    why = "the reset must consider exactly the filled region (current_len)" if is_len else "buffers must forward the new priorities, unchanged and exactly once, to their PriorityBuffer"
+    if not calls:
+        # evidence only when the method does nothing at all; a forwarding this rule does not see is undecided
+        if any(isinstance(x, ast.Call) for x in ast.walk(fn)):
+            raise AnalysisError(f"{site}: no call of the PriorityBuffer's {meth} recognised (unrecognised form)")
+        ck.ob("R4-bookkeeping", site, key, False, "no call at all", why, loc(fmi, fn))
+        return
+    pm = _m(repo, PB, meth)
+    pps = [p_ for p_ in _roles(pm) if p_ != "self"]
+    ck.need(len(pps) >= 1, f"{PB}.{meth}: signature changed (anchor vanished)")
+    own = [p_ for p_ in _roles(fn) if p_ != "self"]
+    if is_len:
+        want = nf0.poly(parse_expr("self.current_len"), Scope(None, fmi, {}, cq), None)
+    else:
+        ck.need(len(own) >= 1, f"{site}: signature changed (anchor vanished)")
+        want = Poly.atom(own[0], {own[0]}, {own[0]})
+    args_ok = True
+    for n, c in calls:
+        a = _bind(pm, c, site).get(pps[0])
+        if a is None:
+            raise AnalysisError(f"{site}: `{short(c, 60)}` does not pass `{pps[0]}` (unrecognised form)")
+        got = _len_of_self(repo, nf0, cq, nf0.poly(a, Scope(cfg, fmi, {}, cq), n.id))
+        if got != want:
+            if not _evidence(nf0, got, want, ("buffer_size", "insert_idx") if is_len else ()):
+                raise AnalysisError(f"{site}: forwards `{got.canon()[:80]}` (unrecognised form)")
+            args_ok = False
+    ok = args_ok and on_every_path_once(cfg, [n.id for n, _ in calls])
+    ck.ob("R4-bookkeeping", site, key, ok, "; ".join(short(c, 60) for _, c in calls), "" if ok else why, loc(fmi, fn))
 
 
 _VIEW_METHODS = {"reshape", "ravel", "view", "squeeze", "transpose", "swapaxes"}
@@ -167,8 +460,6 @@ def _basic_index(ix):
     if isinstance(ix, ast.Tuple):
         return all(_basic_index(e) or (isinstance(e, ast.Constant) and isinstance(e.value, int)) for e in ix.elts) and any(isinstance(e, ast.Slice) for e in ix.elts)
     return False
-
-
 def r7_store_writers(ck, repo, res):
     PB = RB + "PriorityBuffer"
     n_fn = n_alias = 0
@@ -253,20 +544,20 @@ def r7_store_writers(ck, repo, res):
     ck.count("views-of-stored-priorities", n_alias)
 
 
+
 def r8_multitask(ck, repo, nf):
     """update_priority reaches the member the last batch came from: both receivers are self.buffers[<same recorded attribute>]."""
     MT = RB + "MultiTaskReplayBuffer"
-    mi = repo.module("rl_blox.blox.replay_buffer")
     sb = _m(repo, MT, "sample_batch")
     up = _m(repo, MT, "update_priority")
     rs = _m(repo, MT, "reset_max_priority")
-    from ..sem import recv_canon
+    mi = sb._module
 
     def member_calls(fn, meth):
         cfg = nf.cfg_of(fn)
         out = []
         for n, c in stmt_calls(cfg, lambda c: isinstance(c.func, ast.Attribute) and c.func.attr == meth):
-            r = recv_canon(nf, cfg, mi, n, c)
+            r = recv_canon(nf, cfg, fn._module, n, c)
             if r.startswith("self.buffers[") and r.endswith("]"):
                 out.append((cfg, n, c, r[len("self.buffers["):-1]))
         return out
@@ -275,157 +566,299 @@ def r8_multitask(ck, repo, nf):
     ck.need(len(s_calls) == 1, f"{MT}.sample_batch: expected exactly one self.buffers[...].sample_batch call")
     ck.need(len(u_calls) >= 1, f"{MT}.update_priority: no self.buffers[...].update_priority call (unrecognised idiom)")
     scfg, sn, sc_, s_ix = s_calls[0]
-    if len(u_calls) != 1 or not on_every_path_once(u_calls[0][0], [u_calls[0][1].id]):
+    if not on_every_path_once(u_calls[0][0], [u[1].id for u in u_calls]):
+        # path evidence: some path forwards to no member or to two
         ck.ob("R8-multitask-routing", MT + ".update_priority", "same-member-as-last-sample", False, f"update_priority -> {['self.buffers[' + u[3] + ']' for u in u_calls]}",
-              "exactly one member must receive the new priorities on every path", loc(mi, up))
+              "exactly one member must receive the new priorities on every path", loc(up._module, up))
         return
+    ck.need(len({u[3] for u in u_calls}) == 1, f"{MT}.update_priority: different members on different paths (unrecognised form)")
     u_ix = u_calls[0][3]
     ck.need(u_ix.startswith("self.") and u_ix[5:].isidentifier(), f"{MT}.update_priority: member index `{u_ix}` is not a recorded attribute of self (unrecognised idiom)")
-    # value identity inside sample_batch: the member sampled from is buffers[V] and the recorded attribute holds the same V at that point
-    full = Scope(scfg, mi, {}, MT)
-    rv_ = sc_.func.value
-    if isinstance(rv_, ast.Name):
-        ds_ = scfg.defs_of(sn.id, rv_.id)
-        ck.need(len(ds_) == 1 and ds_[0].kind == "assign" and isinstance(ds_[0].value, ast.Subscript), f"{MT}.sample_batch: member alias `{rv_.id}` not recognised")
-        idx_val = nf.poly(ds_[0].value.slice, full, ds_[0].node).canon()
-    else:
-        ck.need(isinstance(rv_, ast.Subscript), f"{MT}.sample_batch: member receiver `{short(rv_)}` not recognised")
-        idx_val = nf.poly(rv_.slice, full, sn.id).canon()
-    w = [n for n in scfg.nodes if n.kind == "stmt" and isinstance(n.ast, ast.Assign) and any(dotted(t) == u_ix for t in n.ast.targets)]
-    rec_val = nf.poly(w[0].ast.value, full, w[0].id).canon() if len(w) == 1 else None
-    ok = len(w) == 1 and scfg.dominates(w[0].id, sn.id) and rec_val == idx_val
-    ck.ob("R8-multitask-routing", MT + ".update_priority", "same-member-as-last-sample", ok,
-          f"sample_batch samples buffers[{idx_val[:60]}] and records {u_ix} = {(rec_val or 'nothing')[:60]}; update_priority -> self.buffers[{u_ix}]",
-          "" if ok else "the new priorities must go to the member buffer that produced the last batch (its sampled_indices): the index update_priority uses is not the one sample_batch sampled from", loc(mi, up))
-    other = []
-    for meth in repo.cls(MT).body:
-        if isinstance(meth, ast.FunctionDef) and meth.name not in ("sample_batch", "__init__"):
-            for n in ast.walk(meth):
-                if isinstance(n, (ast.Assign, ast.AugAssign)):
-                    for t in (n.targets if isinstance(n, ast.Assign) else [n.target]):
-                        if dotted(t) == u_ix:
-                            other.append(f"{meth.name}: {short(n, 60)}")
+    # who writes the attribute update_priority indexes with (all methods the class uses, inherited ones included)
+    writers = {}
+    for c in repo.mro(MT):
+        for meth in repo.cls(c).body:
+            if isinstance(meth, ast.FunctionDef) and meth.name not in writers:
+                ws = [st for st in ast.walk(meth) if isinstance(st, (ast.Assign, ast.AugAssign, ast.AnnAssign)) and any(dotted(t) == u_ix for t in _targets(st))]
+                if ws:
+                    writers[meth.name] = ws
+    # value identity inside sample_batch, per path: the member sampled from is self.buffers[V] and the recorded attribute holds the same V there
+    want_recv = parse_expr(f"self.buffers[{u_ix}]")
+    seen, bad = set(), None
+    for pth in enumerate_paths(scfg, scfg.entry, {sn.id}):
+        pe = PathEval(nf, scfg, mi, MT + ".sample_batch", {}).run(pth[:-1])
+        used = pe.ev(sc_.func.value)
+        rec = pe.store.get(u_ix)
+        recd = pe.ev(want_recv)
+        sig = (used.canon(), rec.canon() if rec is not None else None)
+        if sig in seen:
+            continue
+        seen.add(sig)
+        if rec is None:
+            # not recorded on this path: evidence when the attribute is known to come from elsewhere (another method writes it)
+            others = sorted(k for k in writers if k != "sample_batch")
+            if not others or "sample_batch" in writers:
+                raise AnalysisError(f"{MT}.sample_batch: no assignment of {u_ix} read on a path to the member's sample_batch (unrecognised form)")
+            bad = bad or f"sample_batch samples {used.canon()[:60]} and never records {u_ix} (written by {others}); update_priority -> self.buffers[{u_ix}]"
+        elif used != recd:
+            if _unread(used, recd):
+                raise AnalysisError(f"{MT}.sample_batch: sampled member `{used.canon()[:80]}` / recorded `{rec.canon()[:80]}` (unrecognised form)")
+            bad = bad or f"sample_batch samples {used.canon()[:70]} and records {u_ix} = {rec.canon()[:60]}; update_priority -> self.buffers[{u_ix}]"
+    ck.need(seen, f"{MT}.sample_batch: no path to the member's sample_batch")
+    ck.ob("R8-multitask-routing", MT + ".update_priority", "same-member-as-last-sample", bad is None,
+          bad or f"sample_batch samples self.buffers[{s_ix[:60]}] and records it in {u_ix}; update_priority -> self.buffers[{u_ix}]",
+          "" if bad is None else "the new priorities must go to the member buffer that produced the last batch (its sampled_indices): the index update_priority uses is not the one sample_batch sampled from", loc(up._module, up))
+    # evidence: an operation the training loops run between sampling and the priority update overwrites the record
+    between = ("add_sample", "select_task", "reset_max_priority", "reward_scale", "environment_terminates", "__len__")
+    if any(k not in between + ("sample_batch", "__init__") for k in writers):
+        raise AnalysisError(f"{MT}: {u_ix} is also written by {sorted(k for k in writers if k not in between + ('sample_batch', '__init__'))} (unrecognised form)")
+    other = [f"{k}: {short(st, 60)}" for k, ws in writers.items() if k in between for st in ws]
     ck.ob("R8-multitask-routing", MT, "sampled-member-single-writer", not other, f"{u_ix} written only by sample_batch", "" if not other else f"{other} overwrites the record of the last sampled member", loc(mi, repo.cls(MT)))
     # every member's maximum is recomputed by reset_max_priority
     rcfg = nf.cfg_of(rs)
-    loops_ = [n for n in rcfg.nodes if n.kind == "for" and dotted(n.ast.iter) == "self.buffers" and isinstance(n.ast.target, ast.Name)]
+    rmi = rs._module
     calls = stmt_calls(rcfg, lambda c: isinstance(c.func, ast.Attribute) and c.func.attr == "reset_max_priority")
-    good = False
-    if len(loops_) == 1 and len(calls) == 1:
-        n_, c_ = calls[0]
-        good = dotted(c_.func.value) == loops_[0].ast.target.id and rcfg.control_deps(n_.id) == [(loops_[0].id, True)]
-    elif len(calls) == 1 and not loops_:
-        # while / index loop or a single member: decide only the clear violation (one fixed member)
-        r = recv_canon(nf, rcfg, mi, calls[0][0], calls[0][1])
-        if r.startswith("self.buffers[") and not rcfg.enclosing_loops(calls[0][0].id):
-            good = False
-        else:
-            raise AnalysisError(f"{MT}.reset_max_priority: iteration over the members not recognised")
-    elif not calls:
+    unrec = AnalysisError(f"{MT}.reset_max_priority: iteration over the members not recognised")
+    if not calls:
+        # evidence only when the method does nothing at all
+        if any(isinstance(x, ast.Call) for x in ast.walk(rs)):
+            raise unrec
         good = False
-    else:
-        raise AnalysisError(f"{MT}.reset_max_priority: iteration over the members not recognised")
-    ck.ob("R8-multitask-routing", MT + ".reset_max_priority", "all-members", good, "; ".join(short(c, 50) for _, c in calls) or "no member call", "" if good else "every member's maximum must be recomputed", loc(mi, rs))
-
-
-def run(ck, repo: Repo, tier: str):
-    nf = NF(repo, inline_depth=1, inline_calls=False)
-    field = r1_field_agreement(ck, repo)
-    r7_store_writers(ck, repo, Resolver(repo))
-    r8_multitask(ck, repo, nf)
-    PB = RB + "PriorityBuffer"
-    mi = repo.module("rl_blox.blox.replay_buffer")
-
-    # ---- R2 init order ----------------------------------------------------------------------------------------
-    from ..sympath import enumerate_paths, PathEval
-    fn = _m(repo, PB, "initialize_priority")
-    cfgi = nf.cfg_of(fn)
-    ip = [p_ for p_ in positional_params(fn) if p_ != "self"][0]
-    sts = [n for n in cfgi.nodes if n.kind == "stmt" and isinstance(n.ast, ast.Assign) and isinstance(n.ast.targets[0], ast.Subscript) and dotted(n.ast.targets[0].value) == "self.priority"]
-    ok = len(sts) == 1 and on_every_path_once(cfgi, [sts[0].id]) and nf.poly(sts[0].ast.targets[0].slice, Scope(cfgi, mi, {}, PB), sts[0].id).canon() == ip \
-        and nf.poly(sts[0].ast.value, Scope(cfgi, mi, {}, PB), sts[0].id).canon() == "self.max_priority"
-    ck.ob("R2-init-order", f"{PB}.initialize_priority", "max-priority", ok, "; ".join(short(n.ast, 60) for n in sts), "" if ok else "a new transition must receive the current maximum priority at the given slot", loc(mi, fn))
-    # LAP: the slot initialised is the value of insert_idx *before* the base class advances it
-    fn = _m(repo, RB + "LAP", "add_sample")
-    cfg = nf.cfg_of(fn)
-    init = stmt_calls(cfg, lambda c: isinstance(c.func, ast.Attribute) and c.func.attr == "initialize_priority")
-    sup = stmt_calls(cfg, lambda c: ast.unparse(c.func) == "super().add_sample")
-    if not init:
-        # the helper may have been inlined: a direct store  <priority store>[IDX] = <max priority>
-        for n_ in cfg.nodes:
-            s_ = n_.ast
-            if n_.kind == "stmt" and isinstance(s_, ast.Assign) and isinstance(s_.targets[0], ast.Subscript) and dotted(s_.targets[0].value) == "self.priority.priority" and dotted(s_.value) == "self.priority.max_priority":
-                fake = ast.copy_location(ast.Call(func=ast.Attribute(value=ast.Name(id="self"), attr="initialize_priority"), args=[s_.targets[0].slice], keywords=[]), s_)
-                init.append((n_, fake))
-    ck.need(len(init) == 1 and len(sup) == 1, f"{RB}LAP.add_sample: expected one priority initialisation and one super().add_sample call (unrecognised idiom)")
-    (ni, ci), (ns, cs) = init[0], sup[0]
-    a = ci.args[0] if ci.args else None
-    pre = False
-    how = short(a) if a is not None else "?"
-    if a is not None and dotted(a) == "self.insert_idx":
-        pre = cfg.paths_avoiding(ns.id, ni.id, set()) is None and on_every_path_once(cfg, [ni.id])   # read before the advance
-    elif isinstance(a, ast.Name):
-        ds = cfg.defs_of(ni.id, a.id)
-        if len(ds) == 1 and ds[0].kind == "assign" and dotted(ds[0].value) == "self.insert_idx":
-            pre = cfg.paths_avoiding(ns.id, ds[0].node, set()) is None and on_every_path_once(cfg, [ni.id])
-            how = f"{a.id} = self.insert_idx (read {'before' if pre else 'after'} the base add)"
-        elif len(ds) == 1 and ds[0].node == ns.id:
-            how = f"{a.id} = result of super().add_sample"
-            # the base class must then return the slot it wrote: decided by its return expression
-            base = repo.method(RB + "ReplayBuffer", "add_sample")[1]
-            rets = [r for r in ast.walk(base) if isinstance(r, ast.Return) and r.value is not None]
-            bc = nf.cfg_of(base)
-            advs = [m for m in bc.nodes if m.kind == "stmt" and isinstance(m.ast, ast.Assign) and dotted(m.ast.targets[0]) == "self.insert_idx"]
-            pre = bool(rets) and all(isinstance(r.value, ast.Name) and all(d.kind == "assign" and dotted(d.value) == "self.insert_idx" and all(bc.paths_avoiding(ad.id, d.node, set()) is None for ad in advs)
-                                                                                for d in bc.defs_of(bc.node_of(r).id, r.value.id)) for r in rets)
-            how += f" (base returns {[short(r.value) for r in rets]})"
+    elif len(calls) == 1:
+        n_, c_ = calls[0]
+        r = recv_canon(nf, rcfg, rmi, n_, c_)
+        loops_ = rcfg.enclosing_loops(n_.id)
+        if not loops_ and r.startswith("self.buffers[") and not _unread(r):
+            good = False    # one fixed member
+        elif len(loops_) == 1 and rcfg.nodes[loops_[0]].kind == "for":
+            lp_ = rcfg.nodes[loops_[0]]
+            isc = Scope(rcfg, rmi, {}, MT)
+            isc.inline_self_attrs = False
+            it_ = nf.poly(lp_.ast.iter, isc, lp_.id).canon()
+            over_all = {"self.buffers": "iter(self.buffers)", "list(self.buffers)": "iter(list(self.buffers))", "tuple(self.buffers)": "iter(tuple(self.buffers))", "enumerate(self.buffers)": "iter(enumerate(self.buffers))[1]",
+                        "range(len(self.buffers))": "self.buffers[iter(range(len(self.buffers)))]"}
+            if over_all.get(it_) == r and rcfg.control_deps(n_.id) == [(lp_.id, True)]:
+                good = True
+            else:
+                raise unrec
+        elif len(loops_) == 1 and isinstance(rcfg.nodes[loops_[0]].ast, ast.While):
+            # counting loop  i = 0; while i < len(self.buffers): self.buffers[i].reset_max_priority(); i += 1
+            lp_ = rcfg.nodes[loops_[0]]
+            rv_, rat_ = _origin(rcfg, c_.func.value, n_.id)
+            i_ = rv_.slice.id if isinstance(rv_, ast.Subscript) and dotted(rv_.value) == "self.buffers" and isinstance(rv_.slice, ast.Name) else None
+            ds_ = rcfg.defs_of(rat_, i_) if i_ else []
+            init_ = [d for d in ds_ if d.kind == "assign" and isinstance(d.value, ast.Constant) and d.value.value == 0 and type(d.value.value) is int and not rcfg.enclosing_loops(d.node)]
+            step_ = [d for d in ds_ if d.kind == "aug" and isinstance(d.value, ast.AugAssign) and isinstance(d.value.op, ast.Add) and isinstance(d.value.value, ast.Constant) and d.value.value.value == 1 and rcfg.control_deps(d.node) == [(lp_.id, True)]]
+            isc = Scope(rcfg, rmi, {}, MT)
+            isc.inline_self_attrs = False
+            isc.opaque_names = {i_} if i_ else set()
+            simple = not any(isinstance(x, (ast.Break, ast.Continue, ast.Return)) for x in ast.walk(lp_.ast)) and not lp_.ast.orelse
+            if i_ and len(ds_) == 2 and len(init_) == 1 and len(step_) == 1 and simple and rcfg.control_deps(n_.id) == [(lp_.id, True)] and rat_ == n_.id \
+                    and nf.poly(lp_.ast.test, isc, lp_.id).canon() == f"Lt({i_}, len(self.buffers))" and rcfg.paths_avoiding(step_[0].node, n_.id, {lp_.id}) is None:
+                good = True
+            else:
+                raise unrec
         else:
-            raise AnalysisError(f"{RB}LAP.add_sample: slot argument `{short(a)}` not recognised")
-    elif a is not None and "current_len" in ast.unparse(a) and "insert_idx" not in ast.unparse(a):
-        pre = False   # the fill level names the written slot only while the buffer is filling
+            raise unrec
     else:
-        raise AnalysisError(f"{RB}LAP.add_sample: slot argument `{short(a) if a is not None else None}` not recognised")
-    ck.ob("R2-init-order", RB + "LAP.add_sample", "init-before-advance", pre, f"initialize_priority({how})",
-          "" if pre else "the priority must be initialised at the slot the transition is written to, i.e. the value of insert_idx *before* the ring advances (afterwards it names the next, stale slot; current_len - 1 is that slot only while the buffer is filling)", loc(mi, fn))
-    # subtrajectory PER: all slots returned by the base add are initialised
-    fn = _m(repo, RB + "SubtrajectoryReplayBufferPER", "add_sample")
+        raise unrec
+    ck.ob("R8-multitask-routing", MT + ".reset_max_priority", "all-members", good, "; ".join(short(c, 50) for _, c in calls) or "no member call", "" if good else "every member's maximum must be recomputed", loc(rmi, rs))
+
+
+def _is_base_call(repo, mi, cq, c, meth) -> bool:
+    """`super().meth(...)`, `super(C, self).meth(...)` or `Base.meth(self, ...)` for a base class of cq."""
+    f = c.func
+    if not (isinstance(f, ast.Attribute) and f.attr == meth):
+        return False
+    v = f.value
+    if isinstance(v, ast.Call) and isinstance(v.func, ast.Name) and v.func.id == "super":
+        return True
+    if isinstance(v, (ast.Name, ast.Attribute)) and c.args and isinstance(c.args[0], ast.Name) and c.args[0].id == "self":
+        r = repo.resolve_expr(mi, v)
+        return r is not None and r in repo.mro(cq)[1:]
+    return False
+
+
+def _init_sites(repo, nf, cfg, mi, cq, site):
+    """(node, slot expression) of every priority initialisation in a buffer method: calls of initialize_priority (argument bound by
+    signature) and the inlined form  <priority store>[IDX] = <max priority>  (also through a local alias of the PriorityBuffer)."""
+    pinit = _m(repo, RB + "PriorityBuffer", "initialize_priority")
+    ip = [p_ for p_ in positional_params(pinit) if p_ != "self"][0]
+    out = [(n, _bind(pinit, c, site).get(ip)) for n, c in stmt_calls(cfg, lambda c: isinstance(c.func, ast.Attribute) and c.func.attr == "initialize_priority")]
+    sc_ = Scope(cfg, mi, {}, cq)
+    sc_.inline_self_attrs = False
+    for n_ in cfg.nodes:
+        s_ = n_.ast
+        if n_.kind == "stmt" and isinstance(s_, ast.Assign) and len(s_.targets) == 1 and isinstance(s_.targets[0], ast.Subscript) and not isinstance(s_.targets[0].slice, (ast.Slice, ast.Tuple)) \
+                and nf.poly(s_.targets[0].value, sc_, n_.id).canon() == "self.priority.priority" and nf.poly(s_.value, sc_, n_.id).canon() == "self.priority.max_priority":
+            out.append((n_, s_.targets[0].slice))
+    return out
+
+
+def r2_initialize(ck, repo, nf):
+    """PriorityBuffer.initialize_priority: the store into the priority array, per path, is priority[<slot argument>] = max_priority."""
+    PB = RB + "PriorityBuffer"
+    fn = _m(repo, PB, "initialize_priority")
+    mi = fn._module
+    site = f"{PB}.initialize_priority"
+    _need_no_own_calls(repo, PB, fn, site)
+    cfgi = nf.cfg_of(fn)
+    ps = [p_ for p_ in positional_params(fn) if p_ != "self"]
+    ck.need(len(ps) >= 1, f"{site}: signature changed (anchor vanished)")
+    ip = ps[0]
+    IP = Poly.atom(ip, {ip}, {ip})
+    want = nf.poly(parse_expr("self.max_priority"), Scope(None, mi, {}, PB), None)
+    seen = set()
+    for pth in enumerate_paths(cfgi, cfgi.entry, {cfgi.exit}):
+        pe = PathEval(nf, cfgi, mi, site, {ip: IP})
+        stores = []
+        for nid, lab in pth[:-1]:
+            nd = cfgi.nodes[nid]
+            if nd.kind == "stmt" and isinstance(nd.ast, (ast.Assign, ast.AnnAssign)) and nd.ast.value is not None:
+                for t in _targets(nd.ast):
+                    if isinstance(t, ast.Subscript) and pe.ev(t.value).canon() == "self.priority":
+                        ix = pe.ev(t.slice) if not isinstance(t.slice, (ast.Slice, ast.Tuple)) else None
+                        stores.append((ix, pe.ev(nd.ast.value), nd.ast))
+            elif nd.kind == "stmt" and isinstance(nd.ast, ast.AugAssign) and isinstance(nd.ast.target, ast.Subscript) and pe.ev(nd.ast.target.value).canon() == "self.priority":
+                raise AnalysisError(f"{site}: `{short(nd.ast, 60)}` (unrecognised form)")
+            pe.step(nid, lab)
+        sig = tuple((ix.canon() if ix is not None else None, v.canon()) for ix, v, _ in stores)
+        if sig in seen:
+            continue
+        seen.add(sig)
+        if len(stores) != 1 or stores[0][0] is None:
+            raise AnalysisError(f"{site}: {len(stores)} stores into the priority array on a path (unrecognised form)")
+        ix, val, st = stores[0]
+        ok = ix == IP and val == want
+        if not ok:
+            ev_ix = ix == IP or _evidence(nf, ix, IP)
+            ev_val = val == want or (not _unread(val) and val.is_const()) or _evidence(nf, val, want)
+            if not (ev_ix and ev_val):
+                raise AnalysisError(f"{site}: `{short(st, 70)}` stores {val.canon()[:60]} at [{ix.canon()[:40]}] (unrecognised form)")
+        ck.ob("R2-init-order", site, "max-priority", ok, short(st, 60), "" if ok else "a new transition must receive the current maximum priority at the given slot", loc(mi, fn))
+    ck.need(seen, f"{site}: no path")
+    return ip
+
+
+def r2_lap(ck, repo, nf):
+    """LAP: the slot initialised is the value of insert_idx *before* the base class advances it."""
+    cq = RB + "LAP"
+    fn = _m(repo, cq, "add_sample")
+    mi = fn._module
     cfg = nf.cfg_of(fn)
-    init = stmt_calls(cfg, lambda c: isinstance(c.func, ast.Attribute) and c.func.attr == "initialize_priority")
-    sup = stmt_calls(cfg, lambda c: ast.unparse(c.func) == "super().add_sample")
-    ck.need(len(init) == 1 and len(sup) == 1, f"{RB}SubtrajectoryReplayBufferPER.add_sample: expected one initialize_priority and one super().add_sample call (unrecognised idiom)")
-    (ni, ci), (ns, cs) = init[0], sup[0]
-    a = ci.args[0] if ci.args else None
-    whole = False
-    if isinstance(a, ast.Name):
-        ds = cfg.defs_of(ni.id, a.id)
-        whole = len(ds) == 1 and ds[0].node == ns.id and ds[0].kind == "assign" and on_every_path_once(cfg, [ni.id])
-        if not whole:
-            # one initialisation per returned slot: `for slot in super().add_sample(..): initialize_priority(slot)`
-            lps = [cfg.nodes[h] for h in cfg.enclosing_loops(ni.id)]
-            for lp_ in lps[:1]:
-                it_ = lp_.ast.iter if lp_.kind == "for" else None
-                if it_ is not None and isinstance(lp_.ast.target, ast.Name) and lp_.ast.target.id == a.id:
-                    src_ok = it_ is cs or (isinstance(it_, ast.Name) and any(d.node == ns.id and d.kind == "assign" for d in cfg.defs_of(lp_.id, it_.id)) and len(cfg.defs_of(lp_.id, it_.id)) == 1)
-                    body_ok = cfg.control_deps(ni.id) and len(cfg.control_deps(ni.id)) == len(cfg.control_deps(lp_.id)) + 1
-                    if src_ok and body_ok:
-                        whole = True
-                    elif src_ok:
-                        raise AnalysisError(f"{RB}SubtrajectoryReplayBufferPER.add_sample: per-slot initialisation is conditional (unrecognised form)")
-    elif isinstance(a, ast.Call) and a is cs:
-        whole = True
-    elif isinstance(a, (ast.Subscript,)):
-        whole = False
+    site = cq + ".add_sample"
+    init = _init_sites(repo, nf, cfg, mi, cq, site)
+    sup = stmt_calls(cfg, lambda c: _is_base_call(repo, mi, cq, c, "add_sample"))
+    ck.need(len(init) == 1 and len(sup) == 1, f"{site}: expected one priority initialisation and one super().add_sample call (unrecognised idiom)")
+    (ni, a), (ns, cs) = init[0], sup[0]
+    unrec = AnalysisError(f"{site}: slot argument `{short(a) if a is not None else None}` not recognised")
+    if a is None:
+        raise unrec
+    a0, at0 = _origin(cfg, a, ni.id)
+    once = on_every_path_once(cfg, [ni.id])
+    if dotted(a0) == "self.insert_idx":
+        # the ring position is read at node at0: it must be read before the base add advances it (path evidence otherwise)
+        pre = cfg.paths_avoiding(ns.id, at0, set()) is None and once
+        how = short(a) if at0 == ni.id else f"{short(a)} = self.insert_idx (read {'before' if pre else 'after'} the base add)"
+    elif a0 is cs:
+        how = f"{short(a)} = result of super().add_sample"
+        # the base class must then return the slot it wrote: decided by its return expression
+        base = next((repo.method(b, "add_sample") for b in repo.mro(cq)[1:] if repo.method(b, "add_sample") is not None), None)
+        ck.need(base is not None, f"{site}: base add_sample not found")
+        bfn = base[1]
+        bfn._module = repo.cls(base[0])._module
+        bc = nf.cfg_of(bfn)
+        rets = [m for m in bc.nodes if m.kind == "stmt" and isinstance(m.ast, ast.Return) and m.ast.value is not None]
+        advs = [m for m in bc.nodes if m.kind == "stmt" and any(dotted(t) == "self.insert_idx" for t in _targets(m.ast))]
+        pre = bool(rets) and bc.paths_avoiding(bc.entry, bc.exit, {m.id for m in rets}) is None and once
+        for r in rets:
+            r0, rat = _origin(bc, r.ast.value, r.id)
+            if dotted(r0) == "self.insert_idx":
+                if any(bc.paths_avoiding(ad.id, rat, set()) is not None for ad in advs):
+                    pre = False     # read after the advance: names the next slot
+            else:
+                sc_ = Scope(bc, bfn._module, {}, base[0])
+                sc_.inline_self_attrs = False
+                rv = nf.poly(r.ast.value, sc_, r.id)
+                if _unread(rv) or "insert_idx" in _tok(rv) or "current_len" not in _tok(rv):
+                    raise AnalysisError(f"{site}: base add_sample returns `{rv.canon()[:80]}` (unrecognised form)")
+                pre = False     # a function of the fill level only
+        how += f" (base returns {[short(r.ast.value) for r in rets]})"
     else:
-        raise AnalysisError(f"{RB}SubtrajectoryReplayBufferPER.add_sample: slot argument `{short(a) if a is not None else None}` not recognised")
-    ck.ob("R2-init-order", RB + "SubtrajectoryReplayBufferPER.add_sample", "init-returned-slots", whole, f"initialize_priority({short(a) if a is not None else None}) <- {short(cs, 50)}",
+        sc_ = Scope(cfg, mi, {}, cq)
+        sc_.inline_self_attrs = False
+        av = nf.poly(a, sc_, ni.id)
+        if _unread(av) or "insert_idx" in _tok(av) or "current_len" not in _tok(av):
+            raise unrec
+        pre = False   # the fill level names the written slot only while the buffer is filling
+        how = short(a)
+    ck.ob("R2-init-order", site, "init-before-advance", pre, f"initialize_priority({how})",
+          "" if pre else "the priority must be initialised at the slot the transition is written to, i.e. the value of insert_idx *before* the ring advances (afterwards it names the next, stale slot; current_len - 1 is that slot only while the buffer is filling)", loc(mi, fn))
+
+
+def r2_subtraj_per(ck, repo, nf):
+    """subtrajectory PER: all slots returned by the base add are initialised."""
+    cq = RB + "SubtrajectoryReplayBufferPER"
+    fn = _m(repo, cq, "add_sample")
+    mi = fn._module
+    cfg = nf.cfg_of(fn)
+    site = cq + ".add_sample"
+    init = _init_sites(repo, nf, cfg, mi, cq, site)
+    sup = stmt_calls(cfg, lambda c: _is_base_call(repo, mi, cq, c, "add_sample"))
+    ck.need(len(init) == 1 and len(sup) == 1, f"{site}: expected one initialize_priority and one super().add_sample call (unrecognised idiom)")
+    (ni, a), (ns, cs) = init[0], sup[0]
+    unrec = AnalysisError(f"{site}: slot argument `{short(a) if a is not None else None}` not recognised")
+    if a is None:
+        raise unrec
+    sc = Scope(cfg, mi, {}, cq)
+    res = nf.poly(cs, sc, ns.id)
+    got = nf.poly(a, sc, ni.id)
+    a0, at0 = _origin(cfg, a, ni.id)
+    if _unread(got, res):
+        raise unrec
+    if got == res and (a0 is cs or at0 == ns.id):
+        whole = on_every_path_once(cfg, [ni.id])     # path evidence otherwise
+        if not whole and cfg.enclosing_loops(ni.id):
+            raise unrec
+    else:
+        whole = None
+        # one initialisation per returned slot: `for slot in super().add_sample(..): initialize_priority(slot)`
+        lps = [cfg.nodes[h] for h in cfg.enclosing_loops(ni.id)]
+        for lp_ in lps[:1]:
+            it_ = lp_.ast.iter if lp_.kind == "for" else None
+            if it_ is not None and isinstance(lp_.ast.target, ast.Name) and isinstance(a0, ast.Name) and lp_.ast.target.id == a0.id:
+                src_ok = _origin(cfg, it_, lp_.id)[0] is cs
+                body_ok = cfg.control_deps(ni.id) and len(cfg.control_deps(ni.id)) == len(cfg.control_deps(lp_.id)) + 1
+                if src_ok and body_ok:
+                    whole = True
+        if whole is None:
+            # positive evidence: one fixed element of the returned list
+            m_ = nf.meta.get(got.single_atom() or "", {})
+            if m_.get("fn") in ("proj", "subscript") and m_.get("args") and m_["args"][0] == res and re.fullmatch(r"\[-?\d+\]", got.single_atom()[len(res.canon()):]):
+                whole = False
+            else:
+                raise unrec
+    ck.ob("R2-init-order", site, "init-returned-slots", whole, f"initialize_priority({short(a)}) <- {short(cs, 50)}",
           "" if whole else "all slots written by the addition (incl. the extra successor row) must receive the maximum priority", loc(mi, fn))
-    # the list returned by the subtrajectory add names exactly the slots written: per path, the returned elements equal the values
-    # insert_idx held immediately before each advance (path evaluation over the entry state; aliases and helpers are transparent)
-    sfn = _m(repo, RB + "SubtrajectoryReplayBuffer", "add_sample")
+
+
+def r2_subtraj_slots(ck, repo, nf):
+    """The list returned by the subtrajectory add names exactly the slots written: per path, the returned elements equal the values
+    insert_idx held immediately before each advance (path evaluation over the entry state; aliases and helpers are transparent)."""
+    cq = RB + "SubtrajectoryReplayBuffer"
+    sfn = _m(repo, cq, "add_sample")
+    mi = sfn._module
+    site = cq + ".add_sample"
+    _need_no_own_calls(repo, cq, sfn, site)
     scfg = nf.cfg_of(sfn)
     srets = [n for n in scfg.nodes if n.kind == "stmt" and isinstance(n.ast, ast.Return)]
     if not srets or any(r.ast.value is None for r in srets):
-        raise AnalysisError(f"{RB}SubtrajectoryReplayBuffer.add_sample: expected `return <written slots>` (unrecognised idiom)")
+        raise AnalysisError(f"{site}: expected `return <written slots>` (unrecognised idiom)")
+    returned = {x.id for r in srets for x in ast.walk(r.ast.value) if isinstance(x, ast.Name)}
+    for n in scfg.nodes:
+        for t in (_targets(n.ast) if n.kind == "stmt" else []):
+            if isinstance(t, ast.Subscript) and isinstance(t.value, ast.Name) and t.value.id in returned:
+                raise AnalysisError(f"{site}: `{short(n.ast, 60)}` changes an element of the returned list (unrecognised form)")
     load_idx = parse_expr("self.insert_idx")
     seen_sig, bad_sig = set(), []
     for pth in enumerate_paths(scfg, scfg.entry, {r.id for r in srets}, max_paths=20000):
@@ -434,184 +867,310 @@ def run(ck, repo: Repo, tier: str):
         written = []
         for nid, lab in pth[:-1]:
             nd = scfg.nodes[nid]
-            if nd.kind == "stmt" and isinstance(nd.ast, (ast.Assign, ast.AugAssign)) and any(dotted(t) == "self.insert_idx" for t in (nd.ast.targets if isinstance(nd.ast, ast.Assign) else [nd.ast.target])):
+            if nd.kind == "stmt" and any(dotted(t) == "self.insert_idx" for t in _targets(nd.ast)):
                 written.append(pe.ev(load_idx).canon())
             pe.step(nid, lab)
         rv = pe.ev(ret_node.ast.value)
         got = []
         for mono, c in rv.terms.items():
             for a_, e_ in mono:
-                m_ = nf.meta.get(a_, {})
-                got += [a_[1:-1]] * int(c) if a_.startswith("(") and a_.endswith(")") and "," not in _top(a_[1:-1]) else [a_]
+                if a_.startswith("(") and a_.endswith(")") and e_ == 1 and len(mono) == 1 and c.denominator == 1 and c > 0:
+                    got += sem_split_args(a_[1:-1]) * int(c)      # a list display (a, b, ..): its elements
+                else:
+                    got.append(a_)
         sig = (tuple(sorted(got)), tuple(sorted(written)))
         if sig in seen_sig:
             continue
         seen_sig.add(sig)
         if sorted(got) != sorted(written):
+            # evidence: the returned elements are ring positions (built from what the written slots are built from), only not the written ones
+            allowed = set().union(*[_tok(w) for w in written], {"self", "insert_idx", "buffer_size", "mod"})
+            if _unread(*got) or not all(_tok(g) <= allowed for g in got):
+                raise AnalysisError(f"{site}: returned value `{rv.canon()[:100]}` is not a list of ring positions (unrecognised form)")
             bad_sig.append(sig)
     ok = not bad_sig and len(seen_sig) >= 2
     if len(seen_sig) < 2 and not bad_sig:
-        raise AnalysisError(f"{RB}SubtrajectoryReplayBuffer.add_sample: only {len(seen_sig)} distinct write pattern(s) found (expected: plain step and episode end)")
-    ck.ob("R2-init-order", RB + "SubtrajectoryReplayBuffer.add_sample", "inserted-at-is-written-slot", ok, f"returned slots per path == slots written: {sorted(seen_sig)[:3]}",
+        raise AnalysisError(f"{site}: only {len(seen_sig)} distinct write pattern(s) found (expected: plain step and episode end)")
+    ck.ob("R2-init-order", site, "inserted-at-is-written-slot", ok, f"returned slots per path == slots written: {sorted(seen_sig)[:3]}",
           "" if ok else f"on some path the returned slots {bad_sig[0][0]} differ from the slots written {bad_sig[0][1]}: a slot recorded after the advance is the next, unwritten one; an unrecorded slot keeps an uninitialised priority", loc(mi, sfn))
 
-    # ---- R3 sampler form: searchsorted(cumsum(P), U) with P = priority[:len] (* mask[:len]) and U uniform on [0, total) ----------------
-    def sampler_forms(cq, meth, fieldtxt, out_store):
-        f = _m(repo, cq, meth)
-        c = nf.cfg_of(f)
-        rets_ = [n for n in c.nodes if n.kind == "stmt" and isinstance(n.ast, ast.Return)]
-        ck.need(len(rets_) == 1, f"{cq}.{meth}: expected one return")
-        env_ = {p_: Poly.atom(p_, {p_}, {p_}) for p_ in positional_params(f)}
-        res = []
-        for pth in enumerate_paths(c, c.entry, {rets_[0].id}):
-            lits = [(t_, v_) for nid, lab in pth if c.nodes[nid].kind == "test" and lab in (True, False) for t_, v_ in c._lits(c.nodes[nid].ast.test, lab, nid)]
-            masked = ("mask is not None", True) in lits or ("mask is None", False) in lits
-            pe = PathEval(nf, c, mi, f"{cq}.{meth}", env_).run(pth[:-1])
-            val = pe.ev(rets_[0].ast.value)
-            key = val.canon()
-            if key in pe.store:
-                val = pe.store[key]
-            res.append((masked, val, pe))
-        return f, rets_[0], res
 
-    def split_call(poly, name):
-        """(args canon list) if poly is a single atom `name(...)`, else None."""
-        t = poly.canon()
-        if not (t.startswith(name + "(") and t.endswith(")")):
-            return None
-        return sem_split_args(t[len(name) + 1:-1])
+def r3_sampler(ck, repo, nf, field, cq, meth, fieldtxt, kind):
+    """searchsorted(cumsum(P), U) with P = priority[:len] (* mask[:len]) and U uniform on [0, total) (stratified: one draw per segment).
+    The roles current_len / batch_size / rng / mask are the positions of the recorded signature."""
+    f = _m(repo, cq, meth)
+    mi = f._module
+    if any(isinstance(x, ast.IfExp) for x in ast.walk(f)):
+        f = split_conditional_assignments(f)     # `x = a if c else b` read as two paths
+        f._module = mi
+    site = f"{cq}.{meth}"
+    c = nf.cfg_of(f)
+    _need_no_local_mutation(c, f, site)
+    ps = _roles(f)
+    ck.need(len(ps) >= 5, f"{site}: signature changed (anchor vanished)")
+    LEN, B, RNG, MASK = ps[1:5]
+    rets_ = [n for n in c.nodes if n.kind == "stmt" and isinstance(n.ast, ast.Return)]
+    ck.need(len(rets_) == 1, f"{site}: expected one return")
+    retn = rets_[0]
+    env_ = {p_: Poly.atom(p_, {p_}, {p_}) for p_ in ps}
+    spec_sc = Scope(None, mi, env_, site)
 
-    for cq, meth, fieldtxt, kind in ((PB, "prioritized_sampling", "self.priority", "plain"), (RB + "PrioritizedReplayBuffer", "prioritized_sampling_stratified", "self.priority.priority", "stratified")):
-        f, retn, res = sampler_forms(cq, meth, fieldtxt, None)
-        site = f"{cq}.{meth}"
-        P0 = f"{fieldtxt}[:current_len]"
-        M0 = "mask[:current_len]"
-        for masked, val, pe in res:
-            tag = "masked" if masked else "unmasked"
-            args = split_call(val, "searchsorted")
-            if args is None or len(args) < 2:
-                raise AnalysisError(f"{site}: returned indices `{val.canon()[:100]}` are not searchsorted(cumulative, draws) (unrecognised idiom)")
-            C, U = args[0], args[1]
-            if not (C.startswith("cumsum(") and C.endswith(")")):
-                # evidence only when the searched array is the stored priorities themselves (possibly sliced / masked), i.e. no cumulative
-                # sum anywhere in it; a cache, an attribute or any other unread value is undecided
-                raw_ok = all(tok_ in ("self", "priority", "mask", "current_len") for tok_ in __import__("re").findall(r"[A-Za-z_][A-Za-z_0-9]*", C))
-                if not raw_ok:
-                    raise AnalysisError(f"{site}: searchsorted searches `{C[:80]}`, whose construction is not read (a cache or derived attribute): unrecognised form")
-                ck.ob("R3-sampler-form", site, f"inverse-cdf:{tag}", False, f"searchsorted({C[:80]}, ...)", "the first argument of searchsorted must be the cumulative sum of the (masked) priorities: searching the raw priorities is not an inverse-CDF draw", loc(mi, f))
-                continue
-            P = C[len("cumsum("):-1]
-            want_p = {f"{M0}*{P0}", f"{P0}*{M0}"} if masked else {P0}
-            okp = P in want_p
-            why = ""
-            if not okp:
-                if P0 not in P:
-                    why = f"the distribution is built from `{P[:80]}`, not from the first current_len stored priorities: entries beyond the filled region can be drawn"
-                elif masked and (f"{M0}*" not in P and f"*{M0}" not in P):
-                    why = f"on the masked path the priorities are not multiplied by mask[:current_len] (`{P[:80]}`): masked-out entries keep a positive probability"
-                else:
-                    raise AnalysisError(f"{site}: sampled distribution `{P[:100]}` not recognised")
-            ck.ob("R3-sampler-form", site, f"distribution:{tag}", okp, f"P = {P[:90]}", why, loc(mi, f))
-            # draws: uniform on [0, total)
-            total = f"{C}[-1]"
-            if kind == "plain":
-                forms = {f"{total}*rng.uniform(0, 1, size=batch_size)", f"rng.uniform(0, 1, size=batch_size)*{total}", f"rng.uniform(0, {total}, size=batch_size)", f"{total}*rng.random(batch_size)", f"{total}*rng.random(size=batch_size)"}
-                oku = U in forms
-                whyu = ""
-                if not oku:
-                    if "uniform(" in U or "random(" in U:
-                        if total not in U:
-                            whyu = f"the uniform draws are scaled by something else than the total priority mass ({U[:80]}): the tail of the distribution is never (or always) drawn"
-                        else:
-                            raise AnalysisError(f"{site}: draws `{U[:100]}` not recognised")
-                    else:
-                        raise AnalysisError(f"{site}: draws `{U[:100]}` not recognised")
-                ck.ob("R3-sampler-form", site, f"uniform-over-total:{tag}", oku, f"U = {U[:90]}", whyu, loc(mi, f))
-            else:
-                envs = {p_: Poly.atom(p_, {p_}, {p_}) for p_ in positional_params(f)}
-                Csrc = f"np.cumsum({fieldtxt}[:current_len] * mask[:current_len])" if masked else f"np.cumsum({fieldtxt}[:current_len])"
-                wantU = nf.poly(parse_expr(f"rng.uniform(low=np.arange(batch_size) * ({Csrc}[-1] / batch_size), high=(np.arange(batch_size) + 1) * ({Csrc}[-1] / batch_size), size=batch_size)"), Scope(None, mi, envs, "strat"), None).canon()
-                oku = U == wantU
-                whyu = ""
-                if not oku:
-                    if "uniform(" in U and "arange(batch_size)" in U:
-                        whyu = "expected one uniform draw per segment [k*total/B, (k+1)*total/B): the segments do not tile [0, total)"
-                    else:
-                        raise AnalysisError(f"{site}: stratified draws `{U[:100]}` not recognised")
-                ck.ob("R3-sampler-form", site, f"stratified-segments:{tag}", oku, f"U = {U[:110]}", whyu, loc(mi, f))
-        # the indices returned are the ones recorded for update_priority (same value: compared as normal forms through local names)
-        rv = retn.ast.value
-        fcfg = nf.cfg_of(f)
-        rec = [n for n in fcfg.nodes if n.kind == "stmt" and isinstance(n.ast, ast.Assign) and any((dotted(t) or "").endswith("." + field) for t in n.ast.targets)]
-        okr = dotted(rv) in (f"self.{field}", f"self.priority.{field}")
-        if not okr and rec:
-            fsc = Scope(fcfg, mi, {}, site)
-            fsc.inline_self_attrs = False
-            got_r = nf.poly(rv, fsc, retn.id)
-            recs = [nf.poly(n.ast.value, fsc, n.id) for n in rec]
-            okr = any(got_r == r_ for r_ in recs) or got_r.canon() in (f"self.{field}", f"self.priority.{field}")
-            if not okr and not any(same_ingredients(got_r, r_) for r_ in recs):
-                raise AnalysisError(f"{site}: returned indices `{got_r.canon()[:80]}` cannot be related to the recorded ones (unrecognised form)")
-        ck.ob("R3-sampler-form", site, "returns-recorded-indices", okr and len(rec) >= 1, f"return {short(rv)}; recorded by {[short(n.ast, 50) for n in rec]}", "" if okr and rec else "the indices returned must be the ones recorded for update_priority", loc(mi, f))
+    def sp(txt):
+        return nf.poly(parse_expr(txt), spec_sc, None)
+    U01 = Poly.atom("u01")
+    n_masked = 0
+    seen = set()
+    for pth in enumerate_paths(c, c.entry, {retn.id}):
+        pe = PathEval(nf, c, mi, site, env_)
+        masked = None
+        for nid, lab in pth[:-1]:
+            nd = c.nodes[nid]
+            if nd.kind == "test" and lab in (True, False) and hasattr(nd.ast, "test"):
+                t_ = pe.ev(nd.ast.test).canon()
+                for l_ in (_flatten_and(t_) if lab else ([_negate(t_)] if len(_flatten_and(t_)) == 1 else [])):
+                    if l_ == f"IsNot({MASK}, None)":
+                        masked = True
+                    elif l_ == f"Is({MASK}, None)":
+                        masked = False
+            pe.step(nid, lab)
+        val = pe.ev(retn.ast.value)
+        if val.canon() in pe.store:
+            val = pe.store[val.canon()]
+        if masked is None:
+            if any(isinstance(x, ast.Name) and x.id == MASK and isinstance(x.ctx, ast.Load) for x in ast.walk(f)):
+                raise AnalysisError(f"{site}: a path that does not decide whether `{MASK}` is given (unrecognised form)")
+            masked = False
+        if (masked, val.canon()) in seen:
+            continue
+        seen.add((masked, val.canon()))
+        n_masked += int(masked)
+        tag = "masked" if masked else "unmasked"
+        m_ = nf.meta.get(val.single_atom() or "", {})
+        if m_.get("fn", "").split(".")[-1] != "searchsorted" or set(m_.get("kws", {})) - {"a", "v", "side"} or ("side" in m_.get("kws", {}) and m_["kws"]["side"].canon() != "'left'"):
+            raise AnalysisError(f"{site}: returned indices `{val.canon()[:100]}` are not searchsorted(cumulative, draws) (unrecognised idiom)")
+        sa = list(m_.get("args", []))
+        C = sa[0] if len(sa) >= 1 else m_["kws"].get("a")
+        U = sa[1] if len(sa) >= 2 else m_["kws"].get("v")
+        if C is None or U is None or len(sa) > 2:
+            raise AnalysisError(f"{site}: returned indices `{val.canon()[:100]}` are not searchsorted(cumulative, draws) (unrecognised idiom)")
+        Psrc = f"{fieldtxt}[:{LEN}] * {MASK}[:{LEN}]" if masked else f"{fieldtxt}[:{LEN}]"
+        wantP = sp(Psrc)
+        mc = nf.meta.get(C.single_atom() or "", {})
+        if mc.get("fn", "").split(".")[-1] != "cumsum" or len(mc.get("args", [])) != 1 or any(k_ != "axis" or v_.canon() not in ("0", "-1", "None") for k_, v_ in mc.get("kws", {}).items()):
+            # evidence only when the searched array is the stored priorities themselves (possibly sliced / masked), i.e. no cumulative
+            # sum anywhere in it; a cache, an attribute or any other unread value is undecided
+            if _unread(C) or not _tok(C) <= {"self", "priority", MASK, LEN}:
+                raise AnalysisError(f"{site}: searchsorted searches `{C.canon()[:80]}`, whose construction is not read (a cache or derived attribute): unrecognised form")
+            ck.ob("R3-sampler-form", site, f"inverse-cdf:{tag}", False, f"searchsorted({C.canon()[:80]}, ...)", "the first argument of searchsorted must be the cumulative sum of the (masked) priorities: searching the raw priorities is not an inverse-CDF draw", loc(mi, f))
+            continue
+        P = mc["args"][0]
+        filled = sp(f"{fieldtxt}[:{LEN}]").single_atom()
+        mslice = sp(f"{MASK}[:{LEN}]").single_atom()
+        if filled not in P.atoms():
+            why = f"the distribution is built from `{P.canon()[:80]}`, not from the first {LEN} stored priorities: entries beyond the filled region can be drawn"
+        elif masked and mslice not in P.atoms():
+            why = f"on the masked path the priorities are not multiplied by {MASK}[:{LEN}] (`{P.canon()[:80]}`): masked-out entries keep a positive probability"
+        else:
+            why = f"the distribution `{P.canon()[:80]}` is not the (masked) filled priorities"
+        _decide(ck, nf, "R3-sampler-form", site, f"distribution:{tag}", P, wantP, f"P = {P.canon()[:90]}", why, loc(mi, f))
+        # draws: U == rest * rng.uniform(low, high, size) read as rest * (low + (high - low) * u), u ~ U[0, 1)
+        draws = [a_ for a_ in U.atoms() if nf.meta.get(a_, {}).get("fn") in (f"{RNG}.uniform", f"{RNG}.random")]
+        unrecU = AnalysisError(f"{site}: draws `{U.canon()[:100]}` not recognised")
+        if len(draws) != 1:
+            raise unrecU
+        split = U.degree_split(draws[0])
+        if 1 not in split or set(split) - {0, 1}:
+            raise unrecU
+        rest, shift = split[1], split.get(0, Poly.const(0))
+        md = nf.meta[draws[0]]
+        names = ["low", "high", "size"] if md["fn"].endswith(".uniform") else ["size"]
+        if len(md["args"]) > len(names) or set(md["kws"]) - set(names) or set(names[:len(md["args"])]) & set(md["kws"]):
+            raise unrecU
+        b = dict(zip(names, md["args"]))
+        b.update(md["kws"])
+        low, high, size = b.get("low", Poly.const(0)), b.get("high", Poly.const(1)), b.get("size")
+        total = sp(f"np.cumsum({Psrc})[-1]")
+        BP = env_[B]
+        if kind == "plain":
+            if size is None or size != BP or "arange" in _tok(low) | _tok(high):
+                raise unrecU
+            gotU = shift + rest * (low + (high - low) * U01)
+            _decide(ck, nf, "R3-sampler-form", site, f"uniform-over-total:{tag}", gotU, total * U01, f"U = {U.canon()[:90]}",
+                    f"the uniform draws do not cover [0, total priority mass) ({U.canon()[:80]}): the tail of the distribution is never (or always) drawn", loc(mi, f))
+        else:
+            k = sp(f"np.arange({B})")
+            if not ((size is not None and size == BP) or (size is None and "arange" in _tok(low) and "arange" in _tok(high))) or (shift.terms and "arange" in _tok(low) | _tok(high)):
+                raise unrecU
+            seg = total * BP.inv()
+            gotU = shift + rest * (low + (high - low) * U01)
+            _decide(ck, nf, "R3-sampler-form", site, f"stratified-segments:{tag}", gotU, k * seg + seg * U01, f"U = {U.canon()[:110]}",
+                    "expected one uniform draw per segment [k*total/B, (k+1)*total/B): the segments do not tile [0, total)", loc(mi, f))
+    if n_masked == 0:
+        if any(isinstance(x, ast.Name) and x.id == MASK and isinstance(x.ctx, ast.Load) for x in ast.walk(f)):
+            raise AnalysisError(f"{site}: no path on which `{MASK}` is known to be given (unrecognised form)")
+        ck.ob("R3-sampler-form", site, "distribution:masked", False, f"`{MASK}` is never read", "masked-out entries keep a positive probability: the mask is ignored", loc(mi, f))
+    # the indices returned are the ones recorded for update_priority (same value: compared as normal forms through local names)
+    rv = retn.ast.value
+    rec = [n for n in c.nodes if n.kind == "stmt" and any(isinstance(t, ast.Attribute) and t.attr == field for t in _targets(n.ast))]
+    if not rec:
+        raise AnalysisError(f"{site}: no assignment of `{field}` in the sampler (recorded elsewhere: unrecognised form)")
+    fsc = Scope(c, mi, {}, site)
+    fsc.inline_self_attrs = False
+    got_r = nf.poly(rv, fsc, retn.id)
+    recs = [nf.poly(n.ast.value, fsc, n.id) for n in rec]
+    rec_names = set()
+    for n in rec:
+        for t in _targets(n.ast):
+            if isinstance(t, ast.Attribute) and t.attr == field:
+                rec_names.add(nf.poly(t, fsc, n.id).canon())
+    okr = any(got_r == r_ for r_ in recs) or got_r.canon() in rec_names
+    if not okr and not _evidence(nf, got_r, recs):
+        raise AnalysisError(f"{site}: returned indices `{got_r.canon()[:80]}` cannot be related to the recorded ones (unrecognised form)")
+    ck.ob("R3-sampler-form", site, "returns-recorded-indices", okr, f"return {short(rv)}; recorded by {[short(n.ast, 50) for n in rec]}", "" if okr else "the indices returned must be the ones recorded for update_priority", loc(mi, f))
 
-    # ---- R4 bookkeeping ---------------------------------------------------------------------------------------------------
+
+def r3_subtraj_masked(ck, repo, nf):
+    """subtrajectory PER passes its mask and the filled length."""
+    PB = RB + "PriorityBuffer"
+    cq = RB + "SubtrajectoryReplayBufferPER"
+    fn = _m(repo, cq, "_sample_idx")
+    mi = fn._module
+    site = cq + "._sample_idx"
+    cfgp = nf.cfg_of(fn)
+    sc_ = stmt_calls(cfgp, lambda c: isinstance(c.func, ast.Attribute) and c.func.attr == "prioritized_sampling")
+    ck.need(len(sc_) == 1, f"{site}: expected one prioritized_sampling call (unrecognised idiom)")
+    ps = _m(repo, PB, "prioritized_sampling")
+    pps = _roles(ps)
+    ck.need(len(pps) >= 5, f"{PB}.prioritized_sampling: signature changed (anchor vanished)")
+    LEN, MASK = pps[1], pps[4]
+    b = _bind(ps, sc_[0][1], site)
+    sc = Scope(cfgp, mi, {}, cq)
+    mval = nf.poly(b[MASK], sc, sc_[0][0].id) if MASK in b else None
+    lval = _len_of_self(repo, nf, cq, nf.poly(b[LEN], sc, sc_[0][0].id)) if LEN in b else None
+    wm, wl = nf.poly(parse_expr("self.mask_"), Scope(None, mi, {}, cq), None), nf.poly(parse_expr("self.current_len"), Scope(None, mi, {}, cq), None)
+    if lval is None:
+        raise AnalysisError(f"{site}: `{LEN}` not passed (unrecognised form)")
+    # an absent mask is the callee's default (None): positive evidence; any other value needs the documented ingredients
+    if mval is not None and mval != wm and mval.canon() != "None" and not _evidence(nf, mval, wm):
+        raise AnalysisError(f"{site}: mask argument `{mval.canon()[:80]}` (unrecognised form)")
+    if lval != wl and not _evidence(nf, lval, wl, ("buffer_size", "insert_idx")):
+        raise AnalysisError(f"{site}: length argument `{lval.canon()[:80]}` (unrecognised form)")
+    ok = mval == wm and lval == wl
+    ck.ob("R3-sampler-form", site, "masked", ok, f"prioritized_sampling({LEN} <- {lval.canon()}, {MASK} <- {mval.canon() if mval is not None else None})", "" if ok else "masked-out start indices must get zero probability: the sampler needs current_len and mask_", loc(mi, fn))
+
+
+def r4_update(ck, repo, nf, field):
+    """PriorityBuffer.update_priority, per path: priority[<field>] = new and max_priority' = max(max(new), max_priority)."""
+    PB = RB + "PriorityBuffer"
     fn = _m(repo, PB, "update_priority")
+    mi = fn._module
+    site = PB + ".update_priority"
+    _need_no_own_calls(repo, PB, fn, site)
     cfgu = nf.cfg_of(fn)
-    pp = [p_ for p_ in positional_params(fn) if p_ != "self"][0]
-    envu = {pp: Poly.atom(pp, {pp}, {pp})}
-    retsu = [cfgu.exit]
+    ps = [p_ for p_ in positional_params(fn) if p_ != "self"]
+    ck.need(len(ps) >= 1, f"{site}: signature changed (anchor vanished)")
+    pp = ps[0]
+    PP = Poly.atom(pp, {pp}, {pp})
+    envu = {pp: PP}
     allp = enumerate_paths(cfgu, cfgu.entry, {cfgu.exit})
-    ck.need(allp, f"{PB}.update_priority: no path")
-    from ..sem import _negate, _flatten_and
-    bm_forms = {nf.poly(parse_expr(x), Scope(None, mi, envu, "u"), None).canon() for x in (f"np.max({pp})", f"{pp}.max()", f"max({pp})", f"jnp.max({pp})")}
-    OLD = "self.max_priority"
+    ck.need(allp, f"{site}: no path")
+    OLDP = nf.poly(parse_expr("self.max_priority"), Scope(None, mi, envu, "u"), None)
+    OLD = OLDP.canon()
+    FIELD = nf.poly(parse_expr(f"self.{field}"), Scope(None, mi, envu, "u"), None)
+
+    def is_bm(p):
+        m_ = nf.meta.get(p.single_atom() or "", {})
+        return m_.get("fn", "").split(".")[-1] in ("max", "amax") and len(m_.get("args", [])) == 1 and not m_.get("kws") and m_["args"][0] == PP
+
+    def is_joint(p):
+        m_ = nf.meta.get(p.single_atom() or "", {})
+        a_ = m_.get("args", [])
+        return m_.get("fn", "").split(".")[-1] in ("max", "maximum") and len(a_) == 2 and not m_.get("kws") and ((a_[0] == OLDP and is_bm(a_[1])) or (a_[1] == OLDP and is_bm(a_[0])))
+
+    def relation(txt, lab):
+        """what a branch condition says about (batch maximum, tracked maximum): 'old' / 'new' is the larger one, None: something else"""
+        m_ = nf.meta.get(txt, {})
+        if m_.get("fn") not in ("Lt", "LtE") or len(m_.get("args", [])) != 2:
+            return None
+        lo, hi = m_["args"] if lab else m_["args"][::-1]      # lo <(=) hi holds on this branch
+        if is_bm(lo) and hi == OLDP:
+            return "old"
+        if lo == OLDP and is_bm(hi):
+            return "new"
+        return None
     seen_sig = set()
     for pth in allp:
-        pe = PathEval(nf, cfgu, mi, PB + ".update_priority", envu)
-        lits = []
+        pe = PathEval(nf, cfgu, mi, site, envu)
+        rels, lits = [], []
+        stores = []
         for nid, lab in pth[:-1]:
             nd = cfgu.nodes[nid]
             if nd.kind == "test" and lab in (True, False) and hasattr(nd.ast, "test"):
-                c = pe.ev(nd.ast.test).canon()
-                lits += _flatten_and(c) if lab else [_negate(c)]
+                t_ = pe.ev(nd.ast.test).canon()
+                lits.append(t_ if lab else _negate(t_))
+                rels.append(relation(t_, lab))
+            if nd.kind == "stmt" and isinstance(nd.ast, (ast.Assign, ast.AnnAssign, ast.AugAssign)):
+                for t in _targets(nd.ast):
+                    if isinstance(t, ast.Subscript) and pe.ev(t.value).canon() == "self.priority":
+                        if isinstance(nd.ast, ast.AugAssign) or isinstance(t.slice, (ast.Slice, ast.Tuple)):
+                            raise AnalysisError(f"{site}: `{short(nd.ast, 60)}` (unrecognised form)")
+                        stores.append((pe.ev(t.slice), pe.ev(nd.ast.value), nd.ast))
             pe.step(nid, lab)
-        st = {k: v.canon() for k, v in pe.store.items()}
-        wrote = st.get(f"self.priority[self.{field}]")
-        newmax = st.get(OLD, OLD)
-        sig = (wrote, newmax, tuple(sorted(lits)))
+        newmax = pe.store.get(OLD, OLDP)
+        sig = (tuple((i_.canon(), v_.canon()) for i_, v_, _ in stores), newmax.canon(), tuple(sorted(lits)))
         if sig in seen_sig:
             continue
         seen_sig.add(sig)
-        ok1 = wrote == pp
-        ck.ob("R4-bookkeeping", PB + ".update_priority", "writes-batch", ok1, f"self.priority[self.{field}] = {wrote}", "" if ok1 else "must set exactly the last sampled entries to the supplied priorities", loc(mi, fn))
-        good = {nf.poly(parse_expr(x), Scope(None, mi, envu, "u"), None).canon() for x in (f"max(np.max({pp}), self.max_priority)", f"np.maximum(self.max_priority, np.max({pp}))", f"max({pp}.max(), self.max_priority)", f"max(max({pp}), self.max_priority)", f"np.maximum({pp}.max(), self.max_priority)")}
-        ok2 = newmax in good
-        if not ok2:
-            # decided by the branch conditions of this path: keeping the old value is right when it is known to be the larger one, ...
-            ge_old = any(l in (f"Lt({b}, {OLD})", f"LtE({b}, {OLD})") for b in bm_forms for l in lits)
-            ge_new = any(l in (f"Lt({OLD}, {b})", f"LtE({OLD}, {b})") for b in bm_forms for l in lits)
-            if newmax == OLD and ge_old:
-                ok2 = True
-            elif newmax in bm_forms and ge_new:
-                ok2 = True
+        if len(stores) != 1:
+            raise AnalysisError(f"{site}: {len(stores)} stores into the priority array on a path (unrecognised form)")
+        ix, val, st = stores[0]
+        ok1 = ix == FIELD and val == PP
+        if not ok1:
+            ev_ix = ix == FIELD or _evidence(nf, ix, FIELD)
+            ev_val = val == PP or (not _unread(val) and val.is_const()) or _evidence(nf, val, PP)
+            if not (ev_ix and ev_val):
+                raise AnalysisError(f"{site}: `{short(st, 70)}` stores {val.canon()[:60]} at [{ix.canon()[:40]}] (unrecognised form)")
+        ck.ob("R4-bookkeeping", site, "writes-batch", ok1, f"self.priority[{ix.canon()}] = {val.canon()}", "" if ok1 else "must set exactly the last sampled entries to the supplied priorities", loc(mi, fn))
+        # the tracked maximum: decided by the value and the branch conditions of this path
+        unrec = AnalysisError(f"{site}: new max_priority `{newmax.canon()[:80]}` under {lits} not recognised")
         why = ""
-        if not ok2:
-            if newmax == OLD:
-                why = "max_priority is not raised on a path where the new priorities may exceed it: later transitions get an initial priority below stored ones"
-            elif OLD not in newmax:
-                why = f"max_priority becomes `{newmax}`, which can be smaller than priorities stored earlier: the tracked maximum must never decrease in an update"
+        if is_joint(newmax):
+            ok2 = True
+        elif newmax == OLDP:
+            # keeping the old value is right when it is known to be the larger one
+            if "old" in rels:
+                ok2 = True
+            elif "new" in rels or not lits:
+                ok2, why = False, "max_priority is not raised on a path where the new priorities may exceed it: later transitions get an initial priority below stored ones"
             else:
-                raise AnalysisError(f"{PB}.update_priority: new max_priority `{newmax}` under {lits} not recognised")
-        ck.ob("R4-bookkeeping", PB + ".update_priority", "raises-max", ok2, f"max_priority' = {newmax}" + (f" under {lits}" if lits else ""), why, loc(mi, fn))
+                raise unrec
+        elif is_bm(newmax):
+            if "new" in rels:
+                ok2 = True
+            elif "old" in rels or not lits:
+                ok2, why = False, f"max_priority becomes `{newmax.canon()}`, which can be smaller than priorities stored earlier: the tracked maximum must never decrease in an update"
+            else:
+                raise unrec
+        else:
+            raise unrec
+        ck.ob("R4-bookkeeping", site, "raises-max", ok2, f"max_priority' = {newmax.canon()}" + (f" under {lits}" if lits else ""), why, loc(mi, fn))
+
+
+def r4_reset(ck, repo, nf):
+    PB = RB + "PriorityBuffer"
     fn = _m(repo, PB, "reset_max_priority")
+    mi = fn._module
     cfgr = nf.cfg_of(fn)
-    lp = [p_ for p_ in positional_params(fn) if p_ != "self"][0]
-    ws = [n for n in cfgr.nodes if n.kind == "stmt" and isinstance(n.ast, ast.Assign) and dotted(n.ast.targets[0]) == "self.max_priority"]
+    ps = [p_ for p_ in positional_params(fn) if p_ != "self"]
+    ck.need(len(ps) >= 1, f"{PB}.reset_max_priority: signature changed (anchor vanished)")
+    lp = ps[0]
+    ws = [n for n in cfgr.nodes if n.kind == "stmt" and any(dotted(t) == "self.max_priority" for t in _targets(n.ast))]
     ck.need(len(ws) >= 1, f"{PB}.reset_max_priority: no assignment of max_priority")
-    from ..sympath import enumerate_paths, PathEval
-    envr = {p_: Poly.atom(p_, {p_}, {p_}) for p_ in positional_params(fn) if p_ != "self"}
+    envr = {p_: Poly.atom(p_, {p_}, {p_}) for p_ in ps}
     filled = nf.poly(parse_expr(f"self.priority[:{lp}]"), Scope(None, mi, envr, PB), None)
     for w_ in ws:
+        if not isinstance(w_.ast, (ast.Assign, ast.AnnAssign)) or len(_targets(w_.ast)) != 1:
+            raise AnalysisError(f"{PB}.reset_max_priority: `{short(w_.ast, 60)}` (unrecognised form)")
         g = guard_literals(nf, cfgr, mi, w_.id)
         okg = all(x in (sem_spec(nf, mi, f"{lp} > 0"), sem_spec(nf, mi, f"{lp} >= 1"), sem_spec(nf, mi, f"{lp} != 0"), lp) for x in g)
         seen_v = set()
@@ -630,9 +1189,9 @@ def run(ck, repo: Repo, tier: str):
             why = ""
             if not okv:
                 fa = filled.single_atom()
-                if arg is not None and fa is not None and fa in arg.atoms() and all(fa in dict(mono) and dict(mono)[fa] == 1 for mono in arg.terms):
+                if arg is not None and not _unread(arg) and fa is not None and fa in arg.atoms() and all(fa in dict(mono) and dict(mono)[fa] == 1 for mono in arg.terms):
                     why = f"the maximum is taken over `{arg.canon()[:80]}`, the filled priorities multiplied by another factor (a mask): a stored priority that the factor hides is larger than the recomputed maximum, so later transitions start below it"
-                elif arg is not None and "self.priority" in arg.atoms() and fa not in arg.atoms():
+                elif arg is not None and not _unread(arg) and "self.priority" in arg.atoms() and fa not in arg.atoms():
                     why = f"the maximum is taken over `{v}`: slots beyond the filled region hold uninitialised memory"
                 else:
                     raise AnalysisError(f"{PB}.reset_max_priority: new value `{v}` not recognised")
@@ -640,45 +1199,265 @@ def run(ck, repo: Repo, tier: str):
                 raise AnalysisError(f"{PB}.reset_max_priority: guard {g} not recognised")
             ck.ob("R4-bookkeeping", PB + ".reset_max_priority", "true-maximum" if len(seen_v) == 1 else f"true-maximum:{len(seen_v)}", okv and okg, f"max_priority = {v[:100]} under {g}", why, loc(mi, fn))
 
-    # ---- R5 formulas ---------------------------------------------------------------------------------------------------------
-    for q, spec in ((RB + "lap_priority", "jnp.maximum(abs_td_error, min_priority) ** alpha"), (RB + "per_priority", "abs_td_error ** alpha + epsion")):
-        f = repo.func(q)
-        env = {p: Poly.atom(p, {p}, {p}) for p in param_names(f)}
-        got = nf.return_poly(q, env)
-        want = nf.poly(parse_expr(spec), Scope(None, mi, env, q), None)
-        ck.ob("R5-formulas", q, "priority", got == want, f"{got.canon()}", "" if got == want else f"must be {want.canon()} (positive, non-decreasing in |error|)", loc(mi, f))
-    fn = _m(repo, RB + "PrioritizedReplayBuffer", "compute_importance_ratio")
+
+def _norm_pow(nf, p: Poly, depth: int = 0) -> Poly:
+    """One spelling for powers with a symbolic exponent: pow(A, -e) is pow(1/A, e) (the exponent's leading coefficient is made positive),
+    also inside the argument of a maximum."""
+    if depth > 6 or p.elems is not None:
+        return p
+    mapping = {}
+    for a in p.atoms():
+        m_ = nf.meta.get(a, {})
+        fn_ = m_.get("fn", "").split(".")[-1]
+        args = m_.get("args", [])
+        if fn_ == "pow" and len(args) == 2 and not m_.get("kws"):
+            A, E = _norm_pow(nf, args[0], depth + 1), _norm_pow(nf, args[1], depth + 1)
+            lead = sorted(E.terms.items(), key=lambda kv: (len(kv[0]), kv[0]))[0][1] if E.terms else 1
+            if lead < 0:
+                A, E = A.inv(), -E
+            q = nf._pow(A, E)
+            if q.canon() != a:
+                mapping[a] = q
+        elif fn_ in ("max", "amax") and len(args) == 1 and not m_.get("kws"):
+            A = _norm_pow(nf, args[0], depth + 1)
+            if A != args[0]:
+                mapping[a] = nf._mkcall("max", [A], {})
+    return p.subst(mapping) if mapping else p
+
+
+def r5_priority_formula(ck, repo, nf, q, builder, extra):
+    f = repo.func(q)
+    mi = f._module
+    ps = _roles(f)
+    ck.need(len(ps) >= 3, f"{q}: signature changed (anchor vanished)")
+    env = {p: Poly.atom(p, {p}, {p}) for p in param_names(f)}
+    got = nf.return_poly(q, env)
+    want = nf.poly(parse_expr(builder(*ps[:3])), Scope(None, mi, env, q), None)
+    if got != want:
+        # a case split written with where(a < b, X, Y) is read branch by branch against the documented maximum
+        m_ = nf.meta.get(got.single_atom() or "", {})
+        mc = nf.meta.get(m_["args"][0].single_atom() or "", {}) if m_.get("fn", "").split(".")[-1] == "where" and len(m_.get("args", [])) == 3 and not m_.get("kws") else {}
+        mx = [a for a in want.atoms() if nf.meta.get(a, {}).get("fn", "").split(".")[-1] == "pow" and nf.meta.get(nf.meta[a]["args"][0].single_atom() or "", {}).get("fn", "").split(".")[-1] == "maximum"]
+        if mc.get("fn") in ("Lt", "LtE") and len(mx) == 1 and want.single_atom() == mx[0]:
+            lo, hi = mc["args"]
+            mm = nf.meta[nf.meta[mx[0]]["args"][0].single_atom()]
+            if len(mm["args"]) == 2 and ({lo.canon(), hi.canon()} == {x.canon() for x in mm["args"]}):
+                expo = nf.meta[mx[0]]["args"][1]
+                for branch, larger, region in ((m_["args"][1], hi, f"{lo.canon()} < {hi.canon()}"), (m_["args"][2], lo, f"{hi.canon()} <= {lo.canon()}")):
+                    wb = nf._pow(larger, expo)
+                    _decide(ck, nf, "R5-formulas", q, "priority", branch, wb, f"{got.canon()}", f"where {region} the priority is {branch.canon()}, it must be {wb.canon()} (positive, non-decreasing in |error|)", loc(mi, f), extra)
+                return
+    _decide(ck, nf, "R5-formulas", q, "priority", got, want, f"{got.canon()}", f"must be {want.canon()} (positive, non-decreasing in |error|)", loc(mi, f), extra)
+
+
+def r5_importance(ck, repo, nf):
+    cq = RB + "PrioritizedReplayBuffer"
+    fn = _m(repo, cq, "compute_importance_ratio")
+    mi = fn._module
+    site = cq + ".compute_importance_ratio"
     cfg = nf.cfg_of(fn)
-    rets = [n for n in cfg.nodes if n.kind == "stmt" and isinstance(n.ast, ast.Return)]
-    sc = Scope(cfg, mi, {p: Poly.atom(p, {p}, {p}) for p in positional_params(fn)}, "ir")
-    got = nf.poly(rets[0].ast.value, sc, rets[0].id)
-    W = "(self.current_len * self.priority.priority[indices] / np.cumsum(self.priority.priority[indices])[-1]) ** (-beta)"
-    want = nf.poly(parse_expr(f"{W} / np.max({W})"), Scope(None, mi, sc.env, "ir"), None)
-    ck.ob("R5-formulas", RB + "PrioritizedReplayBuffer.compute_importance_ratio", "importance-ratio", got == want, f"{got.canon()[:170]}", "" if got == want else "must be (len*p/sum p)^(-beta) divided by its maximum (weights in (0,1], maximum 1, non-increasing in p)", loc(mi, fn))
-    # PER sample_batch computes the ratio for the very indices it gathers with
-    fn = _m(repo, RB + "PrioritizedReplayBuffer", "sample_batch")
+    _need_no_local_mutation(cfg, fn, site)
+    ps = _roles(fn)
+    ck.need(len(ps) >= 3, f"{site}: signature changed (anchor vanished)")
+    IDX, BETA = ps[1], ps[2]
+    rets = [n for n in cfg.nodes if n.kind == "stmt" and isinstance(n.ast, ast.Return) and n.ast.value is not None]
+    ck.need(len(rets) == 1, f"{site}: expected one return")
+    sc = Scope(cfg, mi, {p: Poly.atom(p, {p}, {p}) for p in ps}, "ir")
+    got = _norm_pow(nf, nf.poly(rets[0].ast.value, sc, rets[0].id))
+    wants = []
+    for total in (f"np.cumsum(self.priority.priority[{IDX}])[-1]", f"np.sum(self.priority.priority[{IDX}])"):     # the batch's priority mass, either spelling
+        W = f"(self.current_len * self.priority.priority[{IDX}] / {total}) ** (-{BETA})"
+        wants.append(_norm_pow(nf, nf.poly(parse_expr(f"{W} / np.max({W})"), Scope(None, mi, sc.env, "ir"), None)))
+    _decide(ck, nf, "R5-formulas", site, "importance-ratio", got, wants, f"{got.canon()[:170]}", "must be (len*p/sum p)^(-beta) divided by its maximum (weights in (0,1], maximum 1, non-increasing in p)", loc(mi, fn))
+
+
+def r5_ratio_indices(ck, repo, nf, field):
+    """PER sample_batch computes the ratio for the very indices it gathers with."""
+    cq = RB + "PrioritizedReplayBuffer"
+    fn = _m(repo, cq, "sample_batch")
+    mi = fn._module
+    site = cq + ".sample_batch"
     cfgs = nf.cfg_of(fn)
     rc = stmt_calls(cfgs, lambda c: isinstance(c.func, ast.Attribute) and c.func.attr == "compute_importance_ratio")
-    from ..sem import field_gathers
     gathers = [g_["sub"] for g_ in field_gathers(fn)]
-    ck.need(len(rc) == 1 and gathers, f"{RB}PrioritizedReplayBuffer.sample_batch: importance-ratio call / gather not found (unrecognised idiom)")
+    ck.need(len(rc) == 1 and gathers, f"{site}: importance-ratio call / gather not found (unrecognised idiom)")
     nrc, crc = rc[0]
-    ia = crc.args[0] if crc.args else next((k.value for k in crc.keywords if k.arg == "indices"), None)
-    gi = gathers[0].slice
-    same = ia is not None and isinstance(ia, ast.Name) and isinstance(gi, ast.Name) and ia.id == gi.id and cfgs.defs_of(nrc.id, ia.id) == cfgs.defs_of(cfgs.node_of(gathers[0]).id, gi.id)
-    ck.ob("R5-formulas", RB + "PrioritizedReplayBuffer.sample_batch", "ratio-of-sampled-indices", bool(same), f"compute_importance_ratio({short(ia) if ia is not None else None}, ..); gather at [{short(gi)}]", "" if same else "weights must belong to the rows of the returned batch (same index vector, same definition)", loc(mi, fn))
-    # subtrajectory PER passes its mask and the filled length
-    fn = _m(repo, RB + "SubtrajectoryReplayBufferPER", "_sample_idx")
-    cfgp = nf.cfg_of(fn)
-    sc_ = stmt_calls(cfgp, lambda c: isinstance(c.func, ast.Attribute) and c.func.attr == "prioritized_sampling")
-    ck.need(len(sc_) == 1, f"{RB}SubtrajectoryReplayBufferPER._sample_idx: expected one prioritized_sampling call (unrecognised idiom)")
-    b = bind_call(repo.method(PB, "prioritized_sampling")[1], sc_[0][1], skip_self=True)
-    mval = nf.poly(b["mask"], Scope(cfgp, mi, {}, "p"), sc_[0][0].id).canon() if "mask" in b else None
-    lval = nf.poly(b["current_len"], Scope(cfgp, mi, {}, "p"), sc_[0][0].id).canon() if "current_len" in b else None
-    ok = mval == "self.mask_" and lval == "self.current_len"
-    ck.ob("R3-sampler-form", RB + "SubtrajectoryReplayBufferPER._sample_idx", "masked", ok, f"prioritized_sampling(current_len <- {lval}, mask <- {mval})", "" if ok else "masked-out start indices must get zero probability: the sampler needs current_len and mask_", loc(mi, fn))
+    cir = _m(repo, cq, "compute_importance_ratio")
+    ia = _bind(cir, crc, site).get(_roles(cir)[1])
+    ck.need(ia is not None, f"{site}: index argument of compute_importance_ratio not found (unrecognised form)")
+    sc = Scope(cfgs, mi, {}, cq)
+    sc.inline_self_attrs = False
+    A = nf.poly(ia, sc, nrc.id)
+    ma = nf.meta.get(A.single_atom() or "", {})
+    if ma.get("fn") == "subscript" and ma.get("args") and A.single_atom()[len(ma["args"][0].canon()):] in ("[:]", "[...]"):
+        A = ma["args"][0]      # the whole vector
+    Gs = {nf.poly(g.slice, sc, cfgs.node_of(g).id).canon(): nf.poly(g.slice, sc, cfgs.node_of(g).id) for g in gathers}
+    ck.need(len(Gs) == 1, f"{site}: the fields are gathered with different index vectors (unrecognised form)")
+    G = next(iter(Gs.values()))
+    same = A == G
+    if not same:
+        # the recorded field is the sampler's result (R3 returns-recorded-indices): reading it back after the sampling is the same vector
+        smp = stmt_calls(cfgs, lambda c: isinstance(c.func, ast.Attribute) and c.func.attr in ("prioritized_sampling_stratified", "prioritized_sampling"))
+        if len(smp) == 1 and A.canon() == f"self.priority.{field}" and G == nf.poly(smp[0][1], sc, smp[0][0].id) and cfgs.dominates(smp[0][0].id, nrc.id):
+            same = True
+        elif _unread(A, G) or not (_tok(A) <= _tok(G) | {"priority", field}):
+            raise AnalysisError(f"{site}: ratio indices `{A.canon()[:70]}` / gather indices `{G.canon()[:70]}` (unrecognised form)")
+    ck.ob("R5-formulas", site, "ratio-of-sampled-indices", bool(same), f"compute_importance_ratio({short(ia)}, ..); gather at [{short(gathers[0].slice)}]", "" if same else "weights must belong to the rows of the returned batch (same index vector, same definition)", loc(mi, fn))
 
-    # ---- R6 call-site protocol ---------------------------------------------------------------------------------------------------
+
+def _result_path(cfg, name: str, at: int, depth: int = 0):
+    """(call, position path, node) when the variable holds one position of a call's (nested tuple) result - by unpacking, by constant
+    subscripts of a variable holding (part of) the result, or by copying such a variable - else None."""
+    if depth > 8:
+        return None
+    ds = cfg.defs_of(at, name)
+    if len(ds) != 1:
+        return None
+    d = ds[0]
+    path = tuple(d.path)
+    if any(not isinstance(i, int) for i in path):
+        return None
+    if d.kind in ("unpack", "assign"):
+        v, extra = d.value, ()
+        while isinstance(v, ast.Subscript) and isinstance(v.slice, ast.Constant) and isinstance(v.slice.value, int) and v.slice.value >= 0:
+            extra = (v.slice.value,) + extra
+            v = v.value
+        if isinstance(v, ast.Call) and (d.kind == "unpack" or extra):
+            return v, extra + path, d.node
+        if isinstance(v, ast.Call) and d.kind == "assign":
+            return v, path, d.node
+        if isinstance(v, ast.Name):
+            inner = _result_path(cfg, v.id, d.node, depth + 1)
+            if inner is not None:
+                return inner[0], inner[1] + extra + path, inner[2]
+    return None
+
+
+def r6_site(ck, repo, res, tq, prio_fn, err_path):
+    fn = repo.func(tq)
+    tmi = fn._module
+    cfg = res.cfg_of(fn)
+    ups = [(n, c) for n in cfg.nodes if n.ast is not None and n.kind == "stmt" for c in ast.walk(n.ast) if isinstance(c, ast.Call) and isinstance(c.func, ast.Attribute) and c.func.attr == "update_priority"]
+    ck.need(len(ups) == 1, f"{tq}: expected one update_priority call")
+    n, c = ups[0]
+    buf = dotted(c.func.value)
+    ck.need(buf is not None, f"{tq}: receiver of update_priority not recognised")
+    upm = _m(repo, RB + "LAP", "update_priority")
+    arg = _bind(upm, c, tq).get([p_ for p_ in positional_params(upm) if p_ != "self"][0])
+    ck.need(arg is not None, f"{tq}: argument of update_priority not found (unrecognised form)")
+    # priority value: <prio_fn>(<errors>, ...) possibly via locals / value-transparent wrappers
+    pe, pat = _origin(cfg, arg, n.id)
+    known = {RB + "lap_priority", RB + "per_priority"}
+    r = repo.resolve_expr(tmi, pe.func) if isinstance(pe, ast.Call) and isinstance(pe.func, (ast.Name, ast.Attribute)) and not (isinstance(pe.func, ast.Name) and cfg.defs_of(pat, pe.func.id)) else None
+    ok = r == RB + prio_fn
+    if not ok:
+        # evidence: another known priority function, or the raw result of a call (no priority function at all)
+        raw = isinstance(pe, ast.Name) and _result_path(cfg, pe.id, pat) is not None
+        if not (r in known or raw):
+            raise AnalysisError(f"{tq}: priorities `{short(pe, 70)}` (unrecognised form)")
+    ck.ob("R6-call-protocol", tq, "priority-function", ok, f"update_priority({short(pe, 70)})", "" if ok else f"priorities must be computed by {prio_fn}", loc(tmi, c))
+    if not ok:
+        return
+    pf = repo.func(RB + prio_fn)
+    err = _bind(pf, pe, tq, skip_self=False).get(_roles(pf)[0])
+    ck.need(err is not None, f"{tq}: TD-error argument not found")
+    e0, eat = _origin(cfg, err, pat)
+    sub = ()
+    while isinstance(e0, ast.Subscript) and isinstance(e0.slice, ast.Constant) and isinstance(e0.slice.value, int) and e0.slice.value >= 0:
+        sub = (e0.slice.value,) + sub
+        e0, eat = _origin(cfg, e0.value, eat)
+    ck.need(isinstance(e0, ast.Name), f"{tq}: TD-error argument is not a variable")
+    rp = _result_path(cfg, e0.id, eat)
+    ck.need(rp is not None, f"{tq}: TD-error argument `{e0.id}` is not a position of a call's result (unrecognised form)")
+    upd_call, path, upd_node = rp[0], tuple(rp[1]) + sub, rp[2]
+    okd = tuple(path) == tuple(err_path)
+    if not okd:
+        # evidence: the recorded position still exists in the unpacking of the same call and holds another variable
+        st = cfg.nodes[upd_node].ast
+        tgt = st.targets[0] if isinstance(st, ast.Assign) and len(st.targets) == 1 else None
+        for i in err_path:
+            tgt = tgt.elts[i] if isinstance(tgt, (ast.Tuple, ast.List)) and i < len(tgt.elts) and not any(isinstance(x, ast.Starred) for x in tgt.elts) else None
+        if not isinstance(tgt, ast.Name):
+            raise AnalysisError(f"{tq}: the result of `{short(upd_call, 50)}` is not unpacked as recorded (unrecognised form)")
+    ck.ob("R6-call-protocol", tq, "errors-from-update", okd, f"{e0.id} <- result{list(path)} of {short(upd_call, 50)}",
+          "" if okd else f"the priorities must be computed from the absolute TD errors (result position {list(err_path)} of the update call), not from another result", loc(tmi, c))
+    if not okd:
+        return
+    # the batch consumed by that update comes from the most recent sample_batch on the same buffer (def-use closure of the update's arguments)
+    samples = [m for m in cfg.nodes if m.ast is not None and m.kind == "stmt" and any(isinstance(x, ast.Call) and isinstance(x.func, ast.Attribute) and x.func.attr == "sample_batch" and dotted(x.func.value) == buf for x in ast.walk(m.ast))]
+    ck.need(samples, f"{tq}: no sample_batch on `{buf}`")
+    rd = cfg.reaching()
+    sample_ids = {m.id for m in samples}
+    direct = set()
+    todo = [(upd_node, x.id) for x in ast.walk(upd_call) if isinstance(x, ast.Name)]
+    seen_d, feeding = set(), set()
+    first = True
+    while todo:
+        nxt = []
+        for at_, nm in todo:
+            for dn, _nm in rd[at_].get(nm, frozenset()):
+                if dn in seen_d:
+                    continue
+                seen_d.add(dn)
+                if dn in sample_ids:
+                    feeding.add(dn)
+                    if first:
+                        direct.add(dn)
+                    continue
+                nd_ = cfg.nodes[dn]
+                if nd_.ast is not None and nd_.kind in ("stmt", "for", "with"):
+                    src_ = nd_.ast.iter if nd_.kind == "for" else nd_.ast
+                    nxt += [(dn, x.id) for x in ast.walk(src_) if isinstance(x, ast.Name) and isinstance(x.ctx, ast.Load)]
+        todo, first = nxt, False
+    pick = feeding if len(feeding) == 1 else direct
+    ck.need(len(pick) == 1, f"{tq}: the batch consumed by `{short(upd_call, 50)}` cannot be attributed to one sample_batch on `{buf}` (unrecognised form)")
+    s0 = cfg.nodes[next(iter(pick))]
+    ck.ob("R6-call-protocol", tq, "batch-feeds-update", True, f"batch of `{short(s0.ast, 60)}` consumed by `{short(upd_call, 50)}`", "", loc(tmi, upd_call))
+    # no sample_batch on the buffer between the feeding sample and update_priority
+    p = None
+    for m in samples:
+        if m.id == s0.id:
+            continue
+        p1 = cfg.paths_avoiding(s0.id, m.id, {n.id})
+        p2 = cfg.paths_avoiding(m.id, n.id, {s0.id}) if p1 is not None else None
+        if p1 is not None and p2 is not None:
+            p = p1 + p2[1:]
+    ck.ob("R6-call-protocol", tq, "no-resample-in-between", p is None, f"sample_batch -> update -> update_priority on `{buf}`",
+          "" if p is None else "another sample_batch on the same buffer lies between the batch whose errors are used and update_priority: the priorities are written to the wrong transitions", loc(tmi, c),
+          cfg.describe_path(p) if p else None)
+    dom = cfg.dominates(s0.id, n.id) and cfg.dominates(upd_node, n.id)
+    ck.ob("R6-call-protocol", tq, "sample-dominates-update", dom, "every path to update_priority passes the sampling and the update", "" if dom else "update_priority can be reached without a fresh sample / update", loc(tmi, c))
+
+
+def run(ck, repo: Repo, tier: str):
+    nf = NF(repo, inline_depth=1, inline_calls=False)
+    PB = RB + "PriorityBuffer"
+    field = sampled_field(repo, nf, PB)
+    nf0 = NF(repo, inline_depth=1, inline_calls=False)
+    _group(ck, r1_field_agreement, ck, repo, nf0, field)
+    for cq in (RB + "LAP", RB + "PrioritizedReplayBuffer", RB + "SubtrajectoryReplayBufferPER"):
+        for meth, is_len in (("update_priority", False), ("reset_max_priority", True)):
+            _group(ck, r4_delegate, ck, repo, nf0, cq, meth, is_len)
+    _group(ck, r7_store_writers, ck, repo, Resolver(repo))
+    _group(ck, r8_multitask, ck, repo, nf)
+    # ---- R2 init order
+    _group(ck, r2_initialize, ck, repo, nf)
+    _group(ck, r2_lap, ck, repo, nf)
+    _group(ck, r2_subtraj_per, ck, repo, nf)
+    _group(ck, r2_subtraj_slots, ck, repo, nf)
+    # ---- R3 sampler form
+    _group(ck, r3_sampler, ck, repo, nf, field, PB, "prioritized_sampling", "self.priority", "plain")
+    _group(ck, r3_sampler, ck, repo, nf, field, RB + "PrioritizedReplayBuffer", "prioritized_sampling_stratified", "self.priority.priority", "stratified")
+    _group(ck, r3_subtraj_masked, ck, repo, nf)
+    # ---- R4 bookkeeping
+    _group(ck, r4_update, ck, repo, nf, field)
+    _group(ck, r4_reset, ck, repo, nf)
+    # ---- R5 formulas (roles by position of the public signatures)
+    _group(ck, r5_priority_formula, ck, repo, nf, RB + "lap_priority", lambda e, m, a: f"jnp.maximum({e}, {m}) ** {a}", ("minimum", "min"))
+    _group(ck, r5_priority_formula, ck, repo, nf, RB + "per_priority", lambda e, a, eps: f"{e} ** {a} + {eps}", ())
+    _group(ck, r5_importance, ck, repo, nf)
+    _group(ck, r5_ratio_indices, ck, repo, nf, field)
+    # ---- R6 call-site protocol
     res = Resolver(repo)
     sites = {
         # (priority function, position of the absolute TD error in the update's result - confirmed against the callees' return statements)
@@ -688,63 +1467,7 @@ def run(ck, repo: Repo, tier: str):
         "rl_blox.algorithm.per.train_ddqn_per": ("per_priority", (1, 1)),
     }
     for tq, (prio_fn, err_path) in sites.items():
-        fn = repo.func(tq)
-        tmi = fn._module
-        cfg = res.cfg_of(fn)
-        ups = [(n, c) for n in cfg.nodes if n.ast is not None and n.kind == "stmt" for c in ast.walk(n.ast) if isinstance(c, ast.Call) and isinstance(c.func, ast.Attribute) and c.func.attr == "update_priority"]
-        ck.need(len(ups) == 1, f"{tq}: expected one update_priority call")
-        n, c = ups[0]
-        buf = dotted(c.func.value)
-        arg = c.args[0]
-        # priority value: <prio_fn>(<errors>, ...) possibly via a local
-        pe = arg
-        if isinstance(pe, ast.Name):
-            ds = cfg.defs_of(n.id, pe.id)
-            pe = ds[0].value if len(ds) == 1 and ds[0].kind == "assign" else pe
-        ok = isinstance(pe, ast.Call) and isinstance(pe.func, ast.Name) and repo.resolve_name(tmi, pe.func.id) == RB + prio_fn
-        ck.ob("R6-call-protocol", tq, "priority-function", ok, f"update_priority({short(pe, 70)})", "" if ok else f"priorities must be computed by {prio_fn}", loc(tmi, c))
-        if not ok:
-            continue
-        eb = bind_call(repo.func(RB + prio_fn), pe)
-        err = eb.get(positional_params(repo.func(RB + prio_fn))[0])
-        ck.need(isinstance(err, ast.Name), f"{tq}: TD-error argument is not a variable")
-        eds = cfg.defs_of(n.id, err.id)
-        okd = len(eds) == 1 and eds[0].kind == "unpack" and isinstance(eds[0].value, ast.Call) and tuple(eds[0].path) == tuple(err_path)
-        ck.ob("R6-call-protocol", tq, "errors-from-update", okd, f"{err.id} <- result{list(eds[0].path) if eds else '?'} of {short(eds[0].value, 50) if eds and eds[0].value is not None else None}",
-              "" if okd else f"the priorities must be computed from the absolute TD errors (result position {list(err_path)} of the update call), not from another result", loc(tmi, c))
-        if not okd:
-            continue
-        upd_node = eds[0].node
-        upd_call = eds[0].value
-        # the batch consumed by that update comes from the most recent sample_batch on the same buffer
-        samples = [m for m in cfg.nodes if m.ast is not None and m.kind == "stmt" and any(isinstance(x, ast.Call) and isinstance(x.func, ast.Attribute) and x.func.attr == "sample_batch" and dotted(x.func.value) == buf for x in ast.walk(m.ast))]
-        ck.need(samples, f"{tq}: no sample_batch on `{buf}`")
-        names_in_update = {x.id for x in ast.walk(upd_call) if isinstance(x, ast.Name)}
-        feeding = []
-        for m in samples:
-            defined = {d.name for d in m.defs}
-            if defined & names_in_update and any((m.id, nm) in cfg.reaching()[upd_node].get(nm, frozenset()) for nm in defined):
-                feeding.append(m)
-        okf = len(feeding) == 1
-        ck.ob("R6-call-protocol", tq, "batch-feeds-update", okf, f"batch of `{short(feeding[0].ast, 60) if feeding else None}` consumed by `{short(upd_call, 50)}`", "" if okf else "the update must consume the batch of exactly one sample_batch on this buffer", loc(tmi, upd_call))
-        if not okf:
-            continue
-        s0 = feeding[0]
-        others = {m.id for m in samples}
-        # no sample_batch on the buffer between the feeding sample and update_priority
-        p = None
-        for m in samples:
-            if m.id == s0.id:
-                continue
-            p1 = cfg.paths_avoiding(s0.id, m.id, {n.id})
-            p2 = cfg.paths_avoiding(m.id, n.id, {s0.id}) if p1 is not None else None
-            if p1 is not None and p2 is not None:
-                p = p1 + p2[1:]
-        ck.ob("R6-call-protocol", tq, "no-resample-in-between", p is None, f"sample_batch -> update -> update_priority on `{buf}`",
-              "" if p is None else "another sample_batch on the same buffer lies between the batch whose errors are used and update_priority: the priorities are written to the wrong transitions", loc(tmi, c),
-              cfg.describe_path(p) if p else None)
-        dom = cfg.dominates(s0.id, n.id) and cfg.dominates(upd_node, n.id)
-        ck.ob("R6-call-protocol", tq, "sample-dominates-update", dom, "every path to update_priority passes the sampling and the update", "" if dom else "update_priority can be reached without a fresh sample / update", loc(tmi, c))
+        _group(ck, r6_site, ck, repo, res, tq, prio_fn, err_path)
 
 
 _F = "rl_blox/blox/replay_buffer.py"
@@ -777,6 +1500,23 @@ MUTANTS = [
     {"id": "c08-ratio-out-param", "file": _F, "rule": "R7", "find": "        normalized_weights = is_weight / np.max(is_weight)", "replace": "        normalized_weights = np.divide(is_weight, np.max(is_weight), out=self.priority.priority[: len(is_weight)])"},
     {"id": "c08-multitask-selected", "file": _F, "rule": "R8", "find": "        self.buffers[self.sampled_task_idx].update_priority(priority)", "replace": "        self.buffers[self.selected_task].update_priority(priority)"},
     {"id": "c08-multitask-reset-selected", "file": _F, "rule": "R8", "find": "        for buffer in self.buffers:\n            buffer.reset_max_priority()", "replace": "        self.buffers[self.selected_task].reset_max_priority()"},
+    # violation paths of the evidence-gated rules (each needs positive evidence, none rests on "not found")
+    {"id": "c08-delegate-squared", "file": _F, "rule": "R4", "nth": 0, "find": "        self.priority.update_priority(priority)", "replace": "        self.priority.update_priority(priority * priority)"},
+    {"id": "c08-reset-capacity", "file": _F, "rule": "R4", "nth": 0, "find": "        self.priority.reset_max_priority(self.current_len)", "replace": "        self.priority.reset_max_priority(self.buffer_size)"},
+    {"id": "c08-delegate-noop", "file": _F, "rule": "R4", "nth": 0, "find": "    def update_priority(self, priority):\n        self.priority.update_priority(priority)", "replace": "    def update_priority(self, priority):\n        pass"},
+    {"id": "c08-init-wrong-slot", "file": _F, "rule": "R2", "find": "        self.priority[insert_idx] = self.max_priority", "replace": "        self.priority[insert_idx - 1] = self.max_priority"},
+    {"id": "c08-subtraj-init-last-only", "file": _F, "rule": "R2", "find": "        self.priority.initialize_priority(inserted_at)", "replace": "        self.priority.initialize_priority(inserted_at[-1])"},
+    {"id": "c08-sampler-whole-array", "file": _F, "rule": "R3", "nth": 0, "find": "        priority = self.priority[:current_len]\n", "replace": "        priority = self.priority\n"},
+    {"id": "c08-sampler-mask-ignored", "file": _F, "rule": "R3", "nth": 0, "find": "        priority = self.priority[:current_len]\n        if mask is not None:\n            priority = priority * mask[:current_len]\n", "replace": "        priority = self.priority[:current_len]\n"},
+    {"id": "c08-sampler-uniform-unscaled", "file": _F, "rule": "R3", "find": "rng.uniform(0, 1, size=batch_size) * probabilities[-1]", "replace": "rng.uniform(0, 1, size=batch_size)"},
+    {"id": "c08-sampler-uniform-half", "file": _F, "rule": "R3", "find": "rng.uniform(0, 1, size=batch_size) * probabilities[-1]", "replace": "rng.uniform(low=0, high=0.5, size=batch_size) * probabilities[-1]"},
+    {"id": "c08-max-never-raised", "file": _F, "rule": "R4", "find": "        self.priority[self.sampled_indices] = priority\n        self.max_priority = max(np.max(priority), self.max_priority)", "replace": "        self.priority[self.sampled_indices] = priority"},
+    {"id": "c08-update-writes-constant", "file": _F, "rule": "R4", "find": "        self.priority[self.sampled_indices] = priority\n", "replace": "        self.priority[self.sampled_indices] = 1.0\n"},
+    {"id": "c08-is-unnormalised", "file": _F, "rule": "R5", "find": "        normalized_weights = is_weight / np.max(is_weight)", "replace": "        normalized_weights = is_weight"},
+    {"id": "c08-lap-where-floor", "file": _F, "rule": "R5", "find": "    return jnp.maximum(abs_td_error, min_priority) ** alpha", "replace": "    return jnp.where(abs_td_error > min_priority, abs_td_error ** alpha, min_priority)"},
+    {"id": "c08-multitask-sample-selected", "file": _F, "rule": "R8", "find": "        return self.buffers[self.sampled_task_idx].sample_batch(", "replace": "        return self.buffers[self.selected_task].sample_batch("},
+    {"id": "c08-td7-raw-errors", "file": "rl_blox/algorithm/td7.py", "rule": "R6", "find": "        lap_priority(max_abs_td_error, lap_min_priority, lap_alpha)\n", "replace": "        max_abs_td_error\n"},
+    {"id": "c08-td7-wrong-result", "file": "rl_blox/algorithm/td7.py", "rule": "R6", "find": "        lap_priority(max_abs_td_error, lap_min_priority, lap_alpha)\n", "replace": "        lap_priority(q_loss_value, lap_min_priority, lap_alpha)\n"},
 ]
 BENIGN = [
     {"id": "c08-b-max-early-return", "file": _F, "find": "        self.max_priority = max(np.max(priority), self.max_priority)", "replace": "        batch_max = np.max(priority)\n        if self.max_priority > batch_max:\n            return\n        self.max_priority = batch_max"},
@@ -791,4 +1531,26 @@ BENIGN = [
     {"id": "c08-b-local-alias", "file": _F, "find": "        self.priority[self.sampled_indices] = priority\n        self.max_priority = max(np.max(priority), self.max_priority)", "replace": "        self.priority[self.sampled_indices] = priority\n        self.max_priority = max(np.max(priority), self.max_priority)\n        assert self.max_priority > 0"},
     {"id": "c08-b-sampler-commuted", "file": _F, "find": "        random_uniforms = rng.uniform(0, 1, size=batch_size) * probabilities[-1]", "replace": "        random_uniforms = probabilities[-1] * rng.uniform(0, 1, size=batch_size)"},
     {"id": "c08-b-td3lap-inline", "file": "rl_blox/algorithm/td3_lap.py", "find": "                priority = lap_priority(\n                    max_abs_td_error, lap_min_priority, lap_alpha\n                )\n                replay_buffer.update_priority(priority)", "replace": "                replay_buffer.update_priority(\n                    lap_priority(max_abs_td_error, lap_min_priority, lap_alpha)\n                )"},
+    # tolerances of the evidence-gated rules: receivers through aliases, keyword / positional spellings, renamed parameters, value-transparent wrappers, carriers
+    {"id": "c08-b-receiver-alias", "file": _F, "find": "        self.priority.sampled_indices = np.searchsorted(\n            probabilities, random_points\n        )\n        return self.priority.sampled_indices", "replace": "        pb = self.priority\n        pb.sampled_indices = np.searchsorted(probabilities, random_points)\n        return pb.sampled_indices"},
+    {"id": "c08-b-extra-copy-on-buffer", "file": _F, "find": "        self.priority.sampled_indices = np.searchsorted(\n            probabilities, random_points\n        )\n        return self.priority.sampled_indices", "replace": "        self.priority.sampled_indices = np.searchsorted(probabilities, random_points)\n        self.sampled_indices = self.priority.sampled_indices\n        return self.priority.sampled_indices"},
+    {"id": "c08-b-delegate-alias", "file": _F, "nth": 0, "find": "        self.priority.update_priority(priority)", "replace": "        pb = self.priority\n        pb.update_priority(priority)"},
+    {"id": "c08-b-reset-len-self", "file": _F, "nth": 0, "find": "        self.priority.reset_max_priority(self.current_len)", "replace": "        self.priority.reset_max_priority(len(self))"},
+    {"id": "c08-b-init-alias-store", "file": _F, "find": "        self.priority[insert_idx] = self.max_priority", "replace": "        store = self.priority\n        store[np.asarray(insert_idx)] = float(self.max_priority)"},
+    {"id": "c08-b-lap-keyword-explicit-base", "file": _F, "find": "        self.priority.initialize_priority(self.insert_idx)\n        super().add_sample(**sample)", "replace": "        slot = int(self.insert_idx)\n        ReplayBuffer.add_sample(self, **sample)\n        self.priority.initialize_priority(insert_idx=slot)"},
+    {"id": "c08-b-subtraj-per-asarray", "file": _F, "find": "        inserted_at = super().add_sample(**sample)\n        self.priority.initialize_priority(inserted_at)", "replace": "        inserted_at = super().add_sample(**sample)\n        slots = np.asarray(inserted_at)\n        self.priority.initialize_priority(insert_idx=slots)"},
+    {"id": "c08-b-subtraj-two-element-list", "file": _F, "edits": [("        inserted_at = [self.insert_idx]\n        self.insert_idx = (self.insert_idx + 1) % self.buffer_size\n", "        first = self.insert_idx\n        self.insert_idx = (self.insert_idx + 1) % self.buffer_size\n"), ("            inserted_at += [self.insert_idx]\n            self.insert_idx = (self.insert_idx + 1) % self.buffer_size\n", "            second = self.insert_idx\n            self.insert_idx = (self.insert_idx + 1) % self.buffer_size\n"), ("            self.episode_timesteps = 0\n\n        return inserted_at", "            self.episode_timesteps = 0\n            return [first, second]\n\n        return [first]")]},
+    {"id": "c08-b-sampler-renamed-params", "file": _F, "find": "        current_len: int,\n        batch_size: int,\n        rng: np.random.Generator,\n        mask: npt.NDArray[int] | None = None,\n    ) -> npt.NDArray[int]:\n        \"\"\"Sample indices based on the priority distribution.\"\"\"\n        priority = self.priority[:current_len]\n        if mask is not None:\n            priority = priority * mask[:current_len]\n        probabilities = np.cumsum(priority)\n        random_uniforms = rng.uniform(0, 1, size=batch_size) * probabilities[-1]\n        self.sampled_indices = np.searchsorted(probabilities, random_uniforms)\n        return self.sampled_indices\n", "replace": "        n_valid: int,\n        n_draws: int,\n        gen: np.random.Generator,\n        valid: npt.NDArray[int] | None = None,\n    ) -> npt.NDArray[int]:\n        \"\"\"Sample indices based on the priority distribution.\"\"\"\n        priority = self.priority[:n_valid]\n        if valid is not None:\n            priority = priority * valid[:n_valid]\n        probabilities = np.cumsum(priority)\n        random_uniforms = gen.uniform(0, 1, size=n_draws) * probabilities[-1]\n        self.sampled_indices = np.searchsorted(probabilities, random_uniforms)\n        return self.sampled_indices\n"},
+    {"id": "c08-b-uniform-keyword-bounds", "file": _F, "find": "rng.uniform(0, 1, size=batch_size) * probabilities[-1]", "replace": "rng.uniform(low=0.0, high=1.0, size=batch_size) * probabilities[-1]"},
+    {"id": "c08-b-uniform-random", "file": _F, "find": "        random_uniforms = rng.uniform(0, 1, size=batch_size) * probabilities[-1]", "replace": "        total = probabilities[-1]\n        u = rng.random(batch_size)\n        random_uniforms = u * total"},
+    {"id": "c08-b-searchsorted-keywords", "file": _F, "find": "np.searchsorted(probabilities, random_uniforms)", "replace": "np.searchsorted(a=probabilities, v=random_uniforms, side=\"left\")"},
+    {"id": "c08-b-stratified-positional", "file": _F, "find": "        random_points = rng.uniform(\n            low=np.arange(batch_size) * segment,\n            high=(np.arange(batch_size) + 1) * segment,\n            size=batch_size\n        )\n", "replace": "        lower = np.arange(batch_size) * segment\n        random_points = rng.uniform(lower, lower + segment, batch_size)\n"},
+    {"id": "c08-b-stratified-k-plus-u", "file": _F, "find": "        random_points = rng.uniform(\n            low=np.arange(batch_size) * segment,\n            high=(np.arange(batch_size) + 1) * segment,\n            size=batch_size\n        )\n", "replace": "        random_points = (np.arange(batch_size) + rng.uniform(0, 1, size=batch_size)) * segment\n"},
+    {"id": "c08-b-mask-ifexp-kwonly", "file": _F, "edits": [("        rng: np.random.Generator,\n        mask: npt.NDArray[int] | None = None,\n    ) -> npt.NDArray[int]:\n        \"\"\"Sample indices based on the priority distribution.\"\"\"\n        priority = self.priority[:current_len]\n        if mask is not None:\n            priority = priority * mask[:current_len]\n", "        rng: np.random.Generator,\n        *,\n        mask: npt.NDArray[int] | None = None,\n    ) -> npt.NDArray[int]:\n        \"\"\"Sample indices based on the priority distribution.\"\"\"\n        filled = self.priority[:current_len]\n        priority = filled if mask is None else filled * mask[:current_len]\n"), ("            self.current_len, batch_size, rng, self.mask_\n        )", "            len(self), batch_size, rng, mask=self.mask_\n        )")]},
+    {"id": "c08-b-max-amax-branch", "file": _F, "find": "        self.max_priority = max(np.max(priority), self.max_priority)", "replace": "        batch_max = np.amax(priority)\n        if batch_max > self.max_priority:\n            self.max_priority = batch_max"},
+    {"id": "c08-b-ratio-one-over", "file": _F, "find": "        is_weight = (self.current_len * priority / sum_probability) ** (-beta)", "replace": "        prob = priority / sum_probability\n        is_weight = (1.0 / (self.current_len * prob)) ** beta"},
+    {"id": "c08-b-ratio-recorded-field", "file": _F, "find": "        importance_ratio = self.compute_importance_ratio(indices, beta)", "replace": "        importance_ratio = self.compute_importance_ratio(beta=beta, indices=self.priority.sampled_indices)"},
+    {"id": "c08-b-multitask-reset-alias", "file": _F, "find": "        for buffer in self.buffers:\n            buffer.reset_max_priority()", "replace": "        for _i, buffer in enumerate(self.buffers):\n            member = buffer\n            member.reset_max_priority()"},
+    {"id": "c08-b-td3lap-aux-carrier", "file": "rl_blox/algorithm/td3_lap.py", "edits": [("from ..blox.replay_buffer import LAP, lap_priority", "from ..blox import replay_buffer as _rb\nfrom ..blox.replay_buffer import LAP, lap_priority"), ("                q_loss_value, (q_mean, max_abs_td_error) = train_step(", "                q_loss_value, aux = train_step("), ("                priority = lap_priority(\n                    max_abs_td_error, lap_min_priority, lap_alpha\n                )\n                replay_buffer.update_priority(priority)", "                q_mean = aux[0]\n                max_abs_td_error = aux[1]\n                errors = max_abs_td_error\n                priority = _rb.lap_priority(errors, alpha=lap_alpha, min_priority=lap_min_priority)\n                replay_buffer.update_priority(priority=np.asarray(priority))")]},
+    {"id": "c08-b-td7-whole-result", "file": "rl_blox/algorithm/td7.py", "edits": [("    q_loss_value, max_abs_td_error, q_target = td7_update_critic(", "    critic_out = td7_update_critic("), ("    metrics[\"q loss\"] = q_loss_value\n", "    q_loss_value, max_abs_td_error, q_target = critic_out\n    metrics[\"q loss\"] = q_loss_value\n")]},
 ]
